@@ -502,3 +502,1278 @@ Lemma next_stable lower d1 d2 s :
   err (snd (next lower d1 s)) = false -> oof (snd (next lower d1 s)) = false -> panic (snd (next lower d1 s)) = None ->
   next lower (d1 ++ d2) s = next lower d1 s.
 Proof. intros He Ho Hp. apply stable_next. repeat split; assumption. Qed.
+
+(* ================= part 4: Hoare specifications of every tokenizer function; C16_total, C16_count *)
+(* ---- P4 ---- *)
+
+Definition span_ok (n : nat) (sp : span) : Prop := fst sp <= snd sp /\ snd sp <= n.
+Definition attr_ok (n : nat) (a : attr_spans) : Prop := span_ok n (fst a) /\ span_ok n (snd a).
+Definition tag_ok (t : list N) : Prop := t = [] \/ In t raw_text_elements.
+
+Record wf (inp : list N) (s : st) : Prop := mk_wf {
+  wf_start : raw_start s <= raw_end s;
+  wf_end : raw_end s <= length inp;
+  wf_panic : panic s = None;
+  wf_oof : oof s = false;
+  wf_attrs : Forall (attr_ok (length inp)) (attribute s);
+  wf_tag : tag_ok (raw_tag s);
+  wf_nattr : length (attribute s) <= length inp
+}.
+
+(* fields that almost no function writes *)
+Record fr (s s' : st) : Prop := mk_fr {
+  fr_rs : raw_start s' = raw_start s;
+  fr_tag : raw_tag s' = raw_tag s;
+  fr_attr : attribute s' = attribute s;
+  fr_cd : allow_cdata s' = allow_cdata s;
+  fr_panic : panic s' = panic s;
+  fr_oof : oof s' = oof s
+}.
+Lemma fr_refl s : fr s s.
+Proof. constructor; reflexivity. Qed.
+Lemma fr_trans a b c : fr a b -> fr b c -> fr a c.
+Proof. intros [] []. constructor; congruence. Qed.
+Lemma wf_fr inp s s' : wf inp s -> fr s s' -> raw_start s <= raw_end s' -> raw_end s' <= length inp -> wf inp s'.
+Proof. intros [] [] H1 H2. constructor; try congruence; try lia. Qed.
+Definition dkeep (s s' : st) : Prop :=
+  data_start s' = data_start s /\ data_end s' = data_end s /\ pending_attribute s' = pending_attribute s.
+(* ---- projections of the pending_attribute setters (kept folded; rewriting database [pa]) ---- *)
+Lemma raw_start_set_pa_key_start v s : raw_start (set_pa_key_start v s) = raw_start s.
+Proof. unfold set_pa_key_start. destruct (pending_attribute s) as [[? ?] [? ?]]. reflexivity. Qed.
+Lemma raw_end_set_pa_key_start v s : raw_end (set_pa_key_start v s) = raw_end s.
+Proof. unfold set_pa_key_start. destruct (pending_attribute s) as [[? ?] [? ?]]. reflexivity. Qed.
+Lemma data_start_set_pa_key_start v s : data_start (set_pa_key_start v s) = data_start s.
+Proof. unfold set_pa_key_start. destruct (pending_attribute s) as [[? ?] [? ?]]. reflexivity. Qed.
+Lemma data_end_set_pa_key_start v s : data_end (set_pa_key_start v s) = data_end s.
+Proof. unfold set_pa_key_start. destruct (pending_attribute s) as [[? ?] [? ?]]. reflexivity. Qed.
+Lemma attribute_set_pa_key_start v s : attribute (set_pa_key_start v s) = attribute s.
+Proof. unfold set_pa_key_start. destruct (pending_attribute s) as [[? ?] [? ?]]. reflexivity. Qed.
+Lemma number_attribute_returned_set_pa_key_start v s : number_attribute_returned (set_pa_key_start v s) = number_attribute_returned s.
+Proof. unfold set_pa_key_start. destruct (pending_attribute s) as [[? ?] [? ?]]. reflexivity. Qed.
+Lemma err_set_pa_key_start v s : err (set_pa_key_start v s) = err s.
+Proof. unfold set_pa_key_start. destruct (pending_attribute s) as [[? ?] [? ?]]. reflexivity. Qed.
+Lemma raw_tag_set_pa_key_start v s : raw_tag (set_pa_key_start v s) = raw_tag s.
+Proof. unfold set_pa_key_start. destruct (pending_attribute s) as [[? ?] [? ?]]. reflexivity. Qed.
+Lemma text_is_raw_set_pa_key_start v s : text_is_raw (set_pa_key_start v s) = text_is_raw s.
+Proof. unfold set_pa_key_start. destruct (pending_attribute s) as [[? ?] [? ?]]. reflexivity. Qed.
+Lemma convert_null_set_pa_key_start v s : convert_null (set_pa_key_start v s) = convert_null s.
+Proof. unfold set_pa_key_start. destruct (pending_attribute s) as [[? ?] [? ?]]. reflexivity. Qed.
+Lemma allow_cdata_set_pa_key_start v s : allow_cdata (set_pa_key_start v s) = allow_cdata s.
+Proof. unfold set_pa_key_start. destruct (pending_attribute s) as [[? ?] [? ?]]. reflexivity. Qed.
+Lemma token_set_pa_key_start v s : token (set_pa_key_start v s) = token s.
+Proof. unfold set_pa_key_start. destruct (pending_attribute s) as [[? ?] [? ?]]. reflexivity. Qed.
+Lemma panic_set_pa_key_start v s : panic (set_pa_key_start v s) = panic s.
+Proof. unfold set_pa_key_start. destruct (pending_attribute s) as [[? ?] [? ?]]. reflexivity. Qed.
+Lemma oof_set_pa_key_start v s : oof (set_pa_key_start v s) = oof s.
+Proof. unfold set_pa_key_start. destruct (pending_attribute s) as [[? ?] [? ?]]. reflexivity. Qed.
+Lemma raw_start_set_pa_key_end v s : raw_start (set_pa_key_end v s) = raw_start s.
+Proof. unfold set_pa_key_end. destruct (pending_attribute s) as [[? ?] [? ?]]. reflexivity. Qed.
+Lemma raw_end_set_pa_key_end v s : raw_end (set_pa_key_end v s) = raw_end s.
+Proof. unfold set_pa_key_end. destruct (pending_attribute s) as [[? ?] [? ?]]. reflexivity. Qed.
+Lemma data_start_set_pa_key_end v s : data_start (set_pa_key_end v s) = data_start s.
+Proof. unfold set_pa_key_end. destruct (pending_attribute s) as [[? ?] [? ?]]. reflexivity. Qed.
+Lemma data_end_set_pa_key_end v s : data_end (set_pa_key_end v s) = data_end s.
+Proof. unfold set_pa_key_end. destruct (pending_attribute s) as [[? ?] [? ?]]. reflexivity. Qed.
+Lemma attribute_set_pa_key_end v s : attribute (set_pa_key_end v s) = attribute s.
+Proof. unfold set_pa_key_end. destruct (pending_attribute s) as [[? ?] [? ?]]. reflexivity. Qed.
+Lemma number_attribute_returned_set_pa_key_end v s : number_attribute_returned (set_pa_key_end v s) = number_attribute_returned s.
+Proof. unfold set_pa_key_end. destruct (pending_attribute s) as [[? ?] [? ?]]. reflexivity. Qed.
+Lemma err_set_pa_key_end v s : err (set_pa_key_end v s) = err s.
+Proof. unfold set_pa_key_end. destruct (pending_attribute s) as [[? ?] [? ?]]. reflexivity. Qed.
+Lemma raw_tag_set_pa_key_end v s : raw_tag (set_pa_key_end v s) = raw_tag s.
+Proof. unfold set_pa_key_end. destruct (pending_attribute s) as [[? ?] [? ?]]. reflexivity. Qed.
+Lemma text_is_raw_set_pa_key_end v s : text_is_raw (set_pa_key_end v s) = text_is_raw s.
+Proof. unfold set_pa_key_end. destruct (pending_attribute s) as [[? ?] [? ?]]. reflexivity. Qed.
+Lemma convert_null_set_pa_key_end v s : convert_null (set_pa_key_end v s) = convert_null s.
+Proof. unfold set_pa_key_end. destruct (pending_attribute s) as [[? ?] [? ?]]. reflexivity. Qed.
+Lemma allow_cdata_set_pa_key_end v s : allow_cdata (set_pa_key_end v s) = allow_cdata s.
+Proof. unfold set_pa_key_end. destruct (pending_attribute s) as [[? ?] [? ?]]. reflexivity. Qed.
+Lemma token_set_pa_key_end v s : token (set_pa_key_end v s) = token s.
+Proof. unfold set_pa_key_end. destruct (pending_attribute s) as [[? ?] [? ?]]. reflexivity. Qed.
+Lemma panic_set_pa_key_end v s : panic (set_pa_key_end v s) = panic s.
+Proof. unfold set_pa_key_end. destruct (pending_attribute s) as [[? ?] [? ?]]. reflexivity. Qed.
+Lemma oof_set_pa_key_end v s : oof (set_pa_key_end v s) = oof s.
+Proof. unfold set_pa_key_end. destruct (pending_attribute s) as [[? ?] [? ?]]. reflexivity. Qed.
+Lemma raw_start_set_pa_val_start v s : raw_start (set_pa_val_start v s) = raw_start s.
+Proof. unfold set_pa_val_start. destruct (pending_attribute s) as [[? ?] [? ?]]. reflexivity. Qed.
+Lemma raw_end_set_pa_val_start v s : raw_end (set_pa_val_start v s) = raw_end s.
+Proof. unfold set_pa_val_start. destruct (pending_attribute s) as [[? ?] [? ?]]. reflexivity. Qed.
+Lemma data_start_set_pa_val_start v s : data_start (set_pa_val_start v s) = data_start s.
+Proof. unfold set_pa_val_start. destruct (pending_attribute s) as [[? ?] [? ?]]. reflexivity. Qed.
+Lemma data_end_set_pa_val_start v s : data_end (set_pa_val_start v s) = data_end s.
+Proof. unfold set_pa_val_start. destruct (pending_attribute s) as [[? ?] [? ?]]. reflexivity. Qed.
+Lemma attribute_set_pa_val_start v s : attribute (set_pa_val_start v s) = attribute s.
+Proof. unfold set_pa_val_start. destruct (pending_attribute s) as [[? ?] [? ?]]. reflexivity. Qed.
+Lemma number_attribute_returned_set_pa_val_start v s : number_attribute_returned (set_pa_val_start v s) = number_attribute_returned s.
+Proof. unfold set_pa_val_start. destruct (pending_attribute s) as [[? ?] [? ?]]. reflexivity. Qed.
+Lemma err_set_pa_val_start v s : err (set_pa_val_start v s) = err s.
+Proof. unfold set_pa_val_start. destruct (pending_attribute s) as [[? ?] [? ?]]. reflexivity. Qed.
+Lemma raw_tag_set_pa_val_start v s : raw_tag (set_pa_val_start v s) = raw_tag s.
+Proof. unfold set_pa_val_start. destruct (pending_attribute s) as [[? ?] [? ?]]. reflexivity. Qed.
+Lemma text_is_raw_set_pa_val_start v s : text_is_raw (set_pa_val_start v s) = text_is_raw s.
+Proof. unfold set_pa_val_start. destruct (pending_attribute s) as [[? ?] [? ?]]. reflexivity. Qed.
+Lemma convert_null_set_pa_val_start v s : convert_null (set_pa_val_start v s) = convert_null s.
+Proof. unfold set_pa_val_start. destruct (pending_attribute s) as [[? ?] [? ?]]. reflexivity. Qed.
+Lemma allow_cdata_set_pa_val_start v s : allow_cdata (set_pa_val_start v s) = allow_cdata s.
+Proof. unfold set_pa_val_start. destruct (pending_attribute s) as [[? ?] [? ?]]. reflexivity. Qed.
+Lemma token_set_pa_val_start v s : token (set_pa_val_start v s) = token s.
+Proof. unfold set_pa_val_start. destruct (pending_attribute s) as [[? ?] [? ?]]. reflexivity. Qed.
+Lemma panic_set_pa_val_start v s : panic (set_pa_val_start v s) = panic s.
+Proof. unfold set_pa_val_start. destruct (pending_attribute s) as [[? ?] [? ?]]. reflexivity. Qed.
+Lemma oof_set_pa_val_start v s : oof (set_pa_val_start v s) = oof s.
+Proof. unfold set_pa_val_start. destruct (pending_attribute s) as [[? ?] [? ?]]. reflexivity. Qed.
+Lemma raw_start_set_pa_val_end v s : raw_start (set_pa_val_end v s) = raw_start s.
+Proof. unfold set_pa_val_end. destruct (pending_attribute s) as [[? ?] [? ?]]. reflexivity. Qed.
+Lemma raw_end_set_pa_val_end v s : raw_end (set_pa_val_end v s) = raw_end s.
+Proof. unfold set_pa_val_end. destruct (pending_attribute s) as [[? ?] [? ?]]. reflexivity. Qed.
+Lemma data_start_set_pa_val_end v s : data_start (set_pa_val_end v s) = data_start s.
+Proof. unfold set_pa_val_end. destruct (pending_attribute s) as [[? ?] [? ?]]. reflexivity. Qed.
+Lemma data_end_set_pa_val_end v s : data_end (set_pa_val_end v s) = data_end s.
+Proof. unfold set_pa_val_end. destruct (pending_attribute s) as [[? ?] [? ?]]. reflexivity. Qed.
+Lemma attribute_set_pa_val_end v s : attribute (set_pa_val_end v s) = attribute s.
+Proof. unfold set_pa_val_end. destruct (pending_attribute s) as [[? ?] [? ?]]. reflexivity. Qed.
+Lemma number_attribute_returned_set_pa_val_end v s : number_attribute_returned (set_pa_val_end v s) = number_attribute_returned s.
+Proof. unfold set_pa_val_end. destruct (pending_attribute s) as [[? ?] [? ?]]. reflexivity. Qed.
+Lemma err_set_pa_val_end v s : err (set_pa_val_end v s) = err s.
+Proof. unfold set_pa_val_end. destruct (pending_attribute s) as [[? ?] [? ?]]. reflexivity. Qed.
+Lemma raw_tag_set_pa_val_end v s : raw_tag (set_pa_val_end v s) = raw_tag s.
+Proof. unfold set_pa_val_end. destruct (pending_attribute s) as [[? ?] [? ?]]. reflexivity. Qed.
+Lemma text_is_raw_set_pa_val_end v s : text_is_raw (set_pa_val_end v s) = text_is_raw s.
+Proof. unfold set_pa_val_end. destruct (pending_attribute s) as [[? ?] [? ?]]. reflexivity. Qed.
+Lemma convert_null_set_pa_val_end v s : convert_null (set_pa_val_end v s) = convert_null s.
+Proof. unfold set_pa_val_end. destruct (pending_attribute s) as [[? ?] [? ?]]. reflexivity. Qed.
+Lemma allow_cdata_set_pa_val_end v s : allow_cdata (set_pa_val_end v s) = allow_cdata s.
+Proof. unfold set_pa_val_end. destruct (pending_attribute s) as [[? ?] [? ?]]. reflexivity. Qed.
+Lemma token_set_pa_val_end v s : token (set_pa_val_end v s) = token s.
+Proof. unfold set_pa_val_end. destruct (pending_attribute s) as [[? ?] [? ?]]. reflexivity. Qed.
+Lemma panic_set_pa_val_end v s : panic (set_pa_val_end v s) = panic s.
+Proof. unfold set_pa_val_end. destruct (pending_attribute s) as [[? ?] [? ?]]. reflexivity. Qed.
+Lemma oof_set_pa_val_end v s : oof (set_pa_val_end v s) = oof s.
+Proof. unfold set_pa_val_end. destruct (pending_attribute s) as [[? ?] [? ?]]. reflexivity. Qed.
+Lemma pa0_set_pa_key_start v s : fst (fst (pending_attribute (set_pa_key_start v s))) = v.
+Proof. unfold set_pa_key_start. destruct (pending_attribute s) as [[? ?] [? ?]]. reflexivity. Qed.
+Lemma pa1_set_pa_key_start v s : snd (fst (pending_attribute (set_pa_key_start v s))) = snd (fst (pending_attribute s)).
+Proof. unfold set_pa_key_start. destruct (pending_attribute s) as [[? ?] [? ?]]. reflexivity. Qed.
+Lemma pa2_set_pa_key_start v s : (snd (pending_attribute (set_pa_key_start v s))) = snd (pending_attribute s).
+Proof. unfold set_pa_key_start. destruct (pending_attribute s) as [[? ?] [? ?]]. reflexivity. Qed.
+Lemma pa0_set_pa_key_end v s : fst (fst (pending_attribute (set_pa_key_end v s))) = fst (fst (pending_attribute s)).
+Proof. unfold set_pa_key_end. destruct (pending_attribute s) as [[? ?] [? ?]]. reflexivity. Qed.
+Lemma pa1_set_pa_key_end v s : snd (fst (pending_attribute (set_pa_key_end v s))) = v.
+Proof. unfold set_pa_key_end. destruct (pending_attribute s) as [[? ?] [? ?]]. reflexivity. Qed.
+Lemma pa2_set_pa_key_end v s : (snd (pending_attribute (set_pa_key_end v s))) = snd (pending_attribute s).
+Proof. unfold set_pa_key_end. destruct (pending_attribute s) as [[? ?] [? ?]]. reflexivity. Qed.
+Lemma pa0_set_pa_val_start v s : (fst (pending_attribute (set_pa_val_start v s))) = fst (pending_attribute s).
+Proof. unfold set_pa_val_start. destruct (pending_attribute s) as [[? ?] [? ?]]. reflexivity. Qed.
+Lemma pa1_set_pa_val_start v s : fst (snd (pending_attribute (set_pa_val_start v s))) = v.
+Proof. unfold set_pa_val_start. destruct (pending_attribute s) as [[? ?] [? ?]]. reflexivity. Qed.
+Lemma pa2_set_pa_val_start v s : snd (snd (pending_attribute (set_pa_val_start v s))) = snd (snd (pending_attribute s)).
+Proof. unfold set_pa_val_start. destruct (pending_attribute s) as [[? ?] [? ?]]. reflexivity. Qed.
+Lemma pa0_set_pa_val_end v s : (fst (pending_attribute (set_pa_val_end v s))) = fst (pending_attribute s).
+Proof. unfold set_pa_val_end. destruct (pending_attribute s) as [[? ?] [? ?]]. reflexivity. Qed.
+Lemma pa1_set_pa_val_end v s : fst (snd (pending_attribute (set_pa_val_end v s))) = fst (snd (pending_attribute s)).
+Proof. unfold set_pa_val_end. destruct (pending_attribute s) as [[? ?] [? ?]]. reflexivity. Qed.
+Lemma pa2_set_pa_val_end v s : snd (snd (pending_attribute (set_pa_val_end v s))) = v.
+Proof. unfold set_pa_val_end. destruct (pending_attribute s) as [[? ?] [? ?]]. reflexivity. Qed.
+Create HintDb pa discriminated.
+#[export] Hint Rewrite raw_start_set_pa_key_start raw_end_set_pa_key_start data_start_set_pa_key_start data_end_set_pa_key_start attribute_set_pa_key_start number_attribute_returned_set_pa_key_start err_set_pa_key_start raw_tag_set_pa_key_start text_is_raw_set_pa_key_start convert_null_set_pa_key_start allow_cdata_set_pa_key_start token_set_pa_key_start panic_set_pa_key_start oof_set_pa_key_start raw_start_set_pa_key_end raw_end_set_pa_key_end data_start_set_pa_key_end data_end_set_pa_key_end attribute_set_pa_key_end number_attribute_returned_set_pa_key_end err_set_pa_key_end raw_tag_set_pa_key_end text_is_raw_set_pa_key_end convert_null_set_pa_key_end allow_cdata_set_pa_key_end token_set_pa_key_end panic_set_pa_key_end oof_set_pa_key_end raw_start_set_pa_val_start raw_end_set_pa_val_start data_start_set_pa_val_start data_end_set_pa_val_start attribute_set_pa_val_start number_attribute_returned_set_pa_val_start err_set_pa_val_start raw_tag_set_pa_val_start text_is_raw_set_pa_val_start convert_null_set_pa_val_start allow_cdata_set_pa_val_start token_set_pa_val_start panic_set_pa_val_start oof_set_pa_val_start raw_start_set_pa_val_end raw_end_set_pa_val_end data_start_set_pa_val_end data_end_set_pa_val_end attribute_set_pa_val_end number_attribute_returned_set_pa_val_end err_set_pa_val_end raw_tag_set_pa_val_end text_is_raw_set_pa_val_end convert_null_set_pa_val_end allow_cdata_set_pa_val_end token_set_pa_val_end panic_set_pa_val_end oof_set_pa_val_end pa0_set_pa_key_start pa1_set_pa_key_start pa2_set_pa_key_start pa0_set_pa_key_end pa1_set_pa_key_end pa2_set_pa_key_end pa0_set_pa_val_start pa1_set_pa_val_start pa2_set_pa_val_start pa0_set_pa_val_end pa1_set_pa_val_end pa2_set_pa_val_end : pa.
+
+Ltac has_pa :=
+  match goal with
+  | |- context [set_pa_key_start _ _] => idtac
+  | |- context [set_pa_key_end _ _] => idtac
+  | |- context [set_pa_val_start _ _] => idtac
+  | |- context [set_pa_val_end _ _] => idtac
+  | H : context [set_pa_key_start _ _] |- _ => idtac
+  | H : context [set_pa_key_end _ _] |- _ => idtac
+  | H : context [set_pa_val_start _ _] |- _ => idtac
+  | H : context [set_pa_val_end _ _] |- _ => idtac
+  end.
+Ltac scbn0 :=
+  cbn [raw_start raw_end data_start data_end pending_attribute attribute number_attribute_returned err raw_tag
+       text_is_raw convert_null allow_cdata token panic oof
+       set_raw_start set_raw_end set_data_start set_data_end set_pending_attribute set_attribute
+       set_number_attribute_returned set_err set_raw_tag set_text_is_raw set_convert_null set_allow_cdata set_token
+       set_panic set_oof
+       fst snd length Nat.add s_script s_SCRIPT s_DOCTYPE s_CDATA] in *.
+Ltac pa_rw :=
+  repeat match goal with
+         | H : context [set_pa_key_start _ _] |- _ => progress autorewrite with pa in H
+         | H : context [set_pa_key_end _ _] |- _ => progress autorewrite with pa in H
+         | H : context [set_pa_val_start _ _] |- _ => progress autorewrite with pa in H
+         | H : context [set_pa_val_end _ _] |- _ => progress autorewrite with pa in H
+         end;
+  try (progress autorewrite with pa).
+Ltac scbn := scbn0; try (has_pa; repeat (progress pa_rw; scbn0)).
+Ltac inv_side ::=
+  cbn [raw_start raw_end data_start data_end pending_attribute attribute number_attribute_returned err raw_tag
+       text_is_raw convert_null allow_cdata token panic oof
+       set_raw_start set_raw_end set_data_start set_data_end set_pending_attribute set_attribute
+       set_number_attribute_returned set_err set_raw_tag set_text_is_raw set_convert_null set_allow_cdata set_token
+       set_panic set_oof fst snd length Nat.add s_script s_SCRIPT s_DOCTYPE s_CDATA];
+  repeat match goal with H : @eq bool _ _ |- _ => clear H end; lia.
+(* lia without the boolean facts about bytes (zify would case-split on them) *)
+Ltac alia := repeat match goal with H : @eq bool _ _ |- _ => clear H end; lia.
+(* arithmetic goals go to lia, everything else to congruence *)
+Ltac arith_or_cong :=
+  lazymatch goal with
+  | |- _ <= _ => first [alia | congruence]
+  | |- _ < _ => alia
+  | |- @eq nat _ _ => first [congruence | alia]
+  | |- _ => first [assumption | congruence]
+  end.
+Ltac wfs :=
+  lazymatch goal with
+  | |- wf _ _ =>
+      first [ assumption
+            | unfold dkeep in *;
+              repeat match goal with H : _ /\ _ |- _ => destruct H end;
+              repeat match goal with H : fr _ _ |- _ => destruct H end;
+              repeat match goal with H : wf _ _ |- _ => destruct H end;
+              constructor; scbn; arith_or_cong ]
+  end.
+
+Ltac mstep EQ :=
+  lazymatch type of EQ with
+  | bind _ _ _ _ = _ =>
+      let a := fresh "a" in let s := fresh "s" in let E1 := fresh "Eh" in
+      apply bind_inv in EQ; destruct EQ as (a & s & E1 & EQ); try (inv_prim E1)
+  | (if ?c then _ else _) _ _ = _ =>
+      let H := fresh "C" in destruct c eqn:H; cbn [orb andb] in H; try discriminate H;
+      try rewrite negb_true_iff in H; try rewrite negb_false_iff in H;
+      try first [ apply Nat.leb_le in H | apply Nat.leb_gt in H | apply Nat.ltb_lt in H | apply Nat.ltb_ge in H
+                | apply Nat.eqb_eq in H | apply Nat.eqb_neq in H ]
+  | _ => inv_prim EQ
+  end.
+Ltac rb EQ :=
+  let Hb := fresh "Hb" in let Hlt := fresh "Hlt" in
+  apply read_byte_inv in EQ; destruct EQ as [(Hb & Hlt & ->) | (Hlt & -> & ->)].
+Ltac frs :=
+  first [ apply fr_refl
+        | repeat match goal with H : fr _ _ |- _ => destruct H end; constructor; cbn in *; congruence ].
+Ltac dks := unfold dkeep in *; cbn in *; intuition congruence.
+Ltac norm :=
+  unfold dkeep in *;
+  repeat match goal with
+         | H : ?x = ?x -> _ |- _ => specialize (H eq_refl)
+         | H : true = false -> _ |- _ => clear H
+         | H : false = true -> _ |- _ => clear H
+         | H : _ /\ _ |- _ => destruct H
+         end;
+  repeat match goal with H : fr _ _ |- _ => destruct H end;
+  repeat match goal with H : pending_attribute ?x = _ |- _ => is_var x; rewrite H in *; clear H end.
+Ltac fin1 :=
+  lazymatch goal with
+  | |- fr _ _ => solve [constructor; scbn; congruence]
+  | |- _ <= _ => alia
+  | |- _ < _ => alia
+  | |- @eq nat _ _ => first [congruence | alia]
+  | |- _ => first [ discriminate | assumption | congruence | solve [intuition congruence] | alia | idtac ]
+  end.
+Ltac fin :=
+  norm;
+  repeat (first [ match goal with |- _ /\ _ => split end | progress intros ]); scbn; norm; scbn; first [congruence | fin1 | idtac].
+
+Lemma skip_white_space_spec inp s a s' : wf inp s -> skip_white_space inp s = (a, s') ->
+  fr s s' /\ raw_end s <= raw_end s' /\ raw_end s' <= length inp /\ dkeep s s' /\ (err s = true -> err s' = true).
+Proof.
+  intros W EQ. pose proof (wf_end _ _ W). unfold skip_white_space in EQ. mstep EQ. mstep EQ.
+  { mstep EQ. fin. }
+  mstep EQ. mstep EQ.
+  eapply (loop_in_rule inp _
+            (fun _ s2 => fr s s2 /\ raw_end s <= raw_end s2 /\ raw_end s2 <= length inp /\ dkeep s s2)
+            (fun _ s2 => length inp - raw_end s2)
+            (fun _ s2 => fr s s2 /\ raw_end s <= raw_end s2 /\ raw_end s2 <= length inp /\ dkeep s s2)) in Eh.
+  - fin; try apply Eh.
+  - clear Eh. intros x s2 r s2' (F & L1 & L2 & D) Eb. mstep Eb; mstep Eb; cbn [err set_raw_end set_err] in Eb.
+    + mstep Eb. { mstep Eb. fin. }
+      mstep Eb. { mstep Eb. fin. }
+      mstep Eb. mstep Eb. fin.
+    + mstep Eb. fin.
+  - fin.
+  - lia.
+Qed.
+
+Lemma raw_names_bytes_b : forallb (fun t => forallb (N.leb 97) t) raw_text_elements = true.
+Proof. reflexivity. Qed.
+Lemma tag_byte t i c : tag_ok t -> nth_error t i = Some c -> (97 <= c)%N.
+Proof.
+  intros [->|H] EQ. { destruct i; discriminate. }
+  pose proof raw_names_bytes_b as B. rewrite forallb_forall in B. specialize (B t H).
+  rewrite forallb_forall in B. apply N.leb_le. apply B. eapply nth_error_In; eauto.
+Qed.
+
+Ltac mrun EQ := repeat (mstep EQ).
+Ltac side := first [ assumption | solve [wfs] | solve [norm; scbn; arith_or_cong] ].
+
+Lemma read_raw_end_tag_spec inp s a s' : wf inp s -> raw_start s + 2 <= raw_end s -> read_raw_end_tag inp s = (a, s') ->
+  fr s s' /\ dkeep s s' /\ raw_end s' <= length inp
+  /\ (a = true -> raw_end s' + 2 = raw_end s /\ raw_end s + length (raw_tag s) + 1 <= length inp /\ err s' = err s)
+  /\ (a = false -> raw_end s <= raw_end s').
+Proof.
+  intros W H2 EQ. pose proof (wf_end _ _ W). unfold read_raw_end_tag in EQ. mstep EQ. mstep EQ.
+  eapply (for_range_rule inp _
+            (fun i s2 => fr s s2 /\ dkeep s s2 /\ raw_end s2 = raw_end s + i /\ raw_end s2 <= length inp /\ err s2 = err s)
+            (fun b s2 => b = false /\ fr s s2 /\ dkeep s s2 /\ raw_end s <= raw_end s2 /\ raw_end s2 <= length inp)) in Eh.
+  2:{ clear Eh EQ. intros i s2 r s2' _ Hi (F & D & L1 & L2 & L3) Eb. cbn [Nat.add] in Hi.
+      mstep Eb; mstep Eb; cbn [err set_raw_end set_err] in Eb.
+      - mstep Eb. { mstep Eb. fin. }
+        assert (Ht : raw_tag s2 = raw_tag s) by (destruct F; assumption).
+        mstep Eb. cbn [raw_tag set_raw_end] in Eh.
+        destruct (index_of_ok 6 (raw_tag s2) i inp (set_raw_end (S (raw_end s2)) s2)) as (c & Hc & Ec); [rewrite Ht; exact Hi|].
+        rewrite Ec in Eh. apply pair_equal_spec in Eh. destruct Eh as [<- <-].
+        mstep Eb. { mstep Eb. fin. }
+        mstep Eb. cbn [raw_tag set_raw_end] in Eh. rewrite Ec in Eh. apply pair_equal_spec in Eh. destruct Eh as [<- <-].
+        mstep Eb. rewrite sub_u8_ok in Eh.
+        2:{ assert (97 <= c)%N by (eapply tag_byte; [|exact Hc]; rewrite Ht; apply W). lia. }
+        apply pair_equal_spec in Eh. destruct Eh as [<- <-].
+        mstep Eb. { mstep Eb. fin. }
+        mstep Eb. mstep Eb. fin.
+      - mstep Eb. fin. }
+  2:{ fin. }
+  destruct a0 as [b|].
+  - destruct Eh as (-> & F & D & L1 & L2). mstep EQ. fin.
+  - destruct Eh as (F & D & L1 & L2 & L3). rewrite Nat.add_0_l in *.
+    mstep EQ; mstep EQ; cbn [err set_raw_end set_err] in EQ.
+    + mstep EQ. { mstep EQ. fin. }
+      mstep EQ.
+      * assert (Ht : raw_tag s0 = raw_tag s) by (destruct F; assumption).
+        mstep EQ. cbn [raw_end raw_tag set_raw_end] in Eh. rewrite Ht in Eh.
+        rewrite dec_raw_end_ok in Eh by (pcbn; lia). apply pair_equal_spec in Eh. destruct Eh as [<- <-].
+        mstep EQ. fin.
+      * mstep EQ. mstep EQ. fin.
+    + mstep EQ. fin.
+Qed.
+
+Ltac app L := match goal with Eh : _ = (_, _) |- _ => apply L in Eh; [ | side .. ] end.
+
+(* ---- P5 ---- *)
+
+Definition sspec (X : nat -> M unit) (k c : nat) (f : nat) : Prop :=
+  forall inp s a s', wf inp s -> raw_tag s = s_script -> raw_start s + k <= raw_end s ->
+    3 * (length inp - raw_end s) + c <= f -> X f inp s = (a, s') ->
+    fr s s' /\ dkeep s s' /\ raw_start s <= raw_end s' /\ raw_end s' <= length inp.
+
+Definition sspec_all (f : nat) : Prop :=
+  sspec read_script_data 0 1 f /\ sspec read_script_data_less_than_sign 1 3 f
+  /\ sspec read_script_data_end_tag_open 2 2 f /\ sspec read_script_data_escape_start 2 2 f
+  /\ sspec read_script_data_escape_start_dash 3 2 f /\ sspec read_script_data_escaped 0 1 f
+  /\ sspec read_script_data_escaped_dash 0 1 f /\ sspec read_script_data_escaped_dash_dash 0 1 f
+  /\ sspec read_script_data_escaped_less_than_sign 1 3 f /\ sspec read_script_data_escaped_end_tag_open 2 2 f
+  /\ sspec read_script_data_double_escape_start 2 5 f /\ sspec read_script_data_double_escaped 0 1 f
+  /\ sspec read_script_data_double_escaped_dash 0 1 f /\ sspec read_script_data_double_escaped_dash_dash 0 1 f
+  /\ sspec read_script_data_double_escaped_less_than_sign 1 3 f /\ sspec read_script_data_double_escaped_end 2 2 f.
+
+Ltac script_unfold_in EQ :=
+  cbn [read_script_data read_script_data_less_than_sign read_script_data_end_tag_open
+       read_script_data_escape_start read_script_data_escape_start_dash read_script_data_escaped
+       read_script_data_escaped_dash read_script_data_escaped_dash_dash read_script_data_escaped_less_than_sign
+       read_script_data_escaped_end_tag_open read_script_data_double_escape_start read_script_data_double_escaped
+       read_script_data_double_escaped_dash read_script_data_double_escaped_dash_dash
+       read_script_data_double_escaped_less_than_sign read_script_data_double_escaped_end] in EQ.
+
+(* a leaf that is a recursive call: use the induction hypothesis *)
+Ltac rec_leaf EQ :=
+  match goal with
+  | H : sspec ?X _ _ ?f |- _ =>
+      match type of EQ with X f _ _ = _ => eapply H in EQ; [ | side .. ] end
+  end.
+
+Ltac end_tag_step EQ :=
+  let F := fresh "F" in let D := fresh "D" in let L := fresh "L" in let Ht := fresh "Ht" in let Hf := fresh "Hf" in
+  match goal with Eh : read_raw_end_tag _ _ = (?b, _) |- _ =>
+    apply read_raw_end_tag_spec in Eh; [ | side | side ]; destruct Eh as (F & D & L & Ht & Hf);
+    destruct b; [specialize (Ht eq_refl); clear Hf | specialize (Hf eq_refl); clear Ht]
+  end.
+
+Lemma sspec_step f : sspec_all f -> sspec_all (S f).
+Proof.
+  intros (H1 & H2 & H3 & H4 & H5 & H6 & H7 & H8 & H9 & H10 & H11 & H12 & H13 & H14 & H15 & H16).
+  unfold sspec_all. repeat match goal with |- _ /\ _ => split end.
+  all: intros inp s a s' W T K Fu EQ; pose proof (wf_end _ _ W); pose proof (wf_start _ _ W); script_unfold_in EQ.
+  1,2,4,5,6,7,8,9,12,13,14,15: (mrun EQ; try (rec_leaf EQ); fin).
+  - (* end_tag_open *) mstep EQ. end_tag_step EQ; mrun EQ; try (rec_leaf EQ); fin.
+  - (* escaped_end_tag_open *) mstep EQ. end_tag_step EQ; mrun EQ; try (rec_leaf EQ); fin.
+  - (* double_escape_start *)
+    mstep EQ. mstep EQ.
+    eapply (for_range_rule inp _
+              (fun i s2 => fr s s2 /\ dkeep s s2 /\ raw_end s2 + 1 = raw_end s + i /\ raw_end s2 <= length inp)
+              (fun (b : bool) s2 => fr s s2 /\ dkeep s s2 /\ raw_end s <= raw_end s2 + 1 /\ raw_end s2 <= length inp)) in Eh.
+    2:{ clear Eh EQ. intros i s2 r s2' _ Hi (F & D & L1 & L2) Eb. cbn [Nat.add length s_script] in Hi.
+        mrun Eb. all: fin. }
+    2:{ fin. }
+    destruct a0 as [[|]|]; cbv beta iota in EQ.
+    + (mrun EQ; fin).
+    + rec_leaf EQ. fin.
+    + cbn [length s_script Nat.add] in Eh. mrun EQ. all: try (rec_leaf EQ). all: fin.
+  - (* double_escaped_end *)
+    mstep EQ. end_tag_step EQ.
+    + rewrite T in Ht. cbn [length s_script] in Ht. mrun EQ. all: try (rec_leaf EQ). all: fin.
+    + mrun EQ. all: try (rec_leaf EQ). all: fin.
+Qed.
+
+Lemma sspec_all_holds : forall f, sspec_all f.
+Proof.
+  induction f as [|f IH]; [|apply sspec_step; exact IH].
+  unfold sspec_all. repeat match goal with |- _ /\ _ => split end; intros inp s a s' W T K Fu EQ; exfalso; lia.
+Qed.
+
+Lemma read_script_spec inp s a s' : wf inp s -> raw_tag s = s_script -> read_script inp s = (a, s') ->
+  fr s s' /\ raw_start s <= raw_end s' /\ raw_end s' <= length inp
+  /\ data_start s' = data_start s /\ data_end s' = raw_end s' /\ pending_attribute s' = pending_attribute s.
+Proof.
+  intros W T EQ. pose proof (wf_end _ _ W). pose proof (wf_start _ _ W).
+  unfold read_script in EQ. mstep EQ. unfold script_fuel in Eh. mstep Eh. mstep Eh.
+  mstep EQ. apply (proj1 (sspec_all_holds _)) in Eh; [|side..]. mstep EQ. fin.
+Qed.
+
+(* ---- P6 ---- *)
+
+Definition pkeep (s s' : st) : Prop := pending_attribute s' = pending_attribute s.
+
+Lemma read_until_close_angle_spec inp s a s' : wf inp s -> read_until_close_angle inp s = (a, s') ->
+  fr s s' /\ raw_end s <= raw_end s' /\ raw_end s' <= length inp /\ data_start s' = raw_end s
+  /\ data_start s' <= data_end s' /\ data_end s' <= raw_end s' /\ pending_attribute s' = pending_attribute s
+  /\ (err s = true -> err s' = true).
+Proof.
+  intros W EQ. pose proof (wf_end _ _ W). unfold read_until_close_angle in EQ. mstep EQ. mstep EQ. mstep EQ.
+  eapply (loop_in_rule inp _
+            (fun _ s2 => fr s s2 /\ raw_end s <= raw_end s2 /\ raw_end s2 <= length inp /\ data_start s2 = raw_end s
+                         /\ pending_attribute s2 = pending_attribute s /\ (err s = true -> err s2 = true))
+            (fun _ s2 => length inp - raw_end s2)
+            (fun _ s2 => fr s s2 /\ raw_end s <= raw_end s2 /\ raw_end s2 <= length inp /\ data_start s2 = raw_end s
+                         /\ data_start s2 <= data_end s2 /\ data_end s2 <= raw_end s2
+                         /\ pending_attribute s2 = pending_attribute s /\ (err s = true -> err s2 = true))) in Eh.
+  - fin.
+  - clear Eh. intros x s2 r s2' HI Eb. mrun Eb; fin.
+  - fin.
+  - scbn. lia.
+Qed.
+
+Lemma read_comment_spec inp s a s' : wf inp s -> 2 <= raw_end s -> read_comment inp s = (a, s') ->
+  fr s s' /\ raw_end s <= raw_end s' /\ raw_end s' <= length inp /\ data_start s' = raw_end s
+  /\ data_start s' <= data_end s' /\ data_end s' <= raw_end s' /\ pending_attribute s' = pending_attribute s.
+Proof.
+  intros W H2 EQ. pose proof (wf_end _ _ W). unfold read_comment in EQ. mstep EQ. mstep EQ.
+  eapply (loop_in_rule inp _
+            (fun (_ : nat) s2 => fr s s2 /\ raw_end s <= raw_end s2 /\ raw_end s2 <= length inp /\ data_start s2 = raw_end s
+                         /\ pending_attribute s2 = pending_attribute s)
+            (fun _ s2 => length inp - raw_end s2)
+            (fun _ s2 => fr s s2 /\ raw_end s <= raw_end s2 /\ raw_end s2 <= length inp /\ data_start s2 = raw_end s
+                         /\ data_end s2 <= raw_end s2
+                         /\ pending_attribute s2 = pending_attribute s)) in Eh.
+  - cbv zeta in EQ. mrun EQ; fin.
+  - clear Eh EQ. intros x s2 r s2' HI Eb. norm. mstep Eb; mstep Eb; scbn.
+    + mstep Eb.
+      { cbv zeta in Eb. destruct (2 <? x) eqn:Hdc; [apply Nat.ltb_lt in Hdc | apply Nat.ltb_ge in Hdc]; cbv beta iota in Eb; mrun Eb; fin. }
+      mrun Eb; fin.
+    + destruct (2 <? x) eqn:Hdc; [apply Nat.ltb_lt in Hdc | apply Nat.ltb_ge in Hdc]; cbv beta iota in Eb; mrun Eb; fin.
+  - fin.
+  - scbn. lia.
+Qed.
+
+Lemma doctype_byte i c : nth_error s_DOCTYPE i = Some c -> (c + 32 <= 255)%N.
+Proof.
+  intros EQ. assert (B : forallb (fun c => N.leb (c + 32) 255) s_DOCTYPE = true) by reflexivity.
+  rewrite forallb_forall in B. apply N.leb_le. apply B. eapply nth_error_In; eauto.
+Qed.
+
+Lemma read_doc_type_spec inp s a s' : wf inp s -> raw_start s <= data_start s -> data_start s <= raw_end s ->
+  read_doc_type inp s = (a, s') ->
+  fr s s' /\ raw_start s <= raw_end s' /\ raw_end s' <= length inp /\ pending_attribute s' = pending_attribute s
+  /\ (a = true -> raw_end s <= raw_end s' /\ data_start s' <= data_end s' /\ data_end s' <= raw_end s')
+  /\ (a = false -> data_start s' = data_start s /\ data_start s <= raw_end s').
+Proof.
+  intros W D1 D2 EQ. pose proof (wf_end _ _ W). pose proof (wf_start _ _ W). unfold read_doc_type in EQ. mstep EQ.
+  eapply (for_range_rule inp _
+            (fun i s2 => fr s s2 /\ raw_end s <= raw_end s2 /\ raw_end s2 <= length inp /\ data_start s2 = data_start s
+                         /\ pending_attribute s2 = pending_attribute s)
+            (fun (b : bool) s2 => b = false /\ fr s s2 /\ raw_start s <= raw_end s2 /\ raw_end s2 <= length inp
+                         /\ data_start s2 = data_start s /\ data_start s <= raw_end s2
+                         /\ pending_attribute s2 = pending_attribute s)) in Eh.
+  2:{ clear Eh EQ. intros i s2 r s2' _ Hi HI Eb. norm. cbn [length s_DOCTYPE Nat.add] in Hi.
+      mstep Eb; mstep Eb; scbn.
+      - mstep Eb. { mrun Eb; fin. }
+        mstep Eb. mstep Eb. { mrun Eb; fin. }
+        mstep Eb. mstep Eb. rewrite add_u8_ok in Eh by (eapply doctype_byte; eassumption).
+        apply pair_equal_spec in Eh; destruct Eh; subst. mrun Eb; fin.
+      - mrun Eb; fin. }
+  2:{ fin. }
+  destruct a0 as [b|]; cbv beta iota in EQ.
+  - norm. subst b. mrun EQ; fin.
+  - norm. mstep EQ. app skip_white_space_spec. mstep EQ. mstep EQ.
+    + mrun EQ; fin.
+    + mstep EQ. app read_until_close_angle_spec. mrun EQ; fin.
+Qed.
+
+Lemma read_cdata_spec inp s a s' : wf inp s -> raw_start s <= data_start s -> data_start s <= raw_end s ->
+  read_cdata inp s = (a, s') ->
+  fr s s' /\ raw_start s <= raw_end s' /\ raw_end s' <= length inp /\ pending_attribute s' = pending_attribute s
+  /\ (a = true -> raw_end s <= raw_end s' /\ data_start s' <= data_end s' /\ data_end s' <= raw_end s')
+  /\ (a = false -> data_start s' = data_start s /\ data_start s <= raw_end s').
+Proof.
+  intros W D1 D2 EQ. pose proof (wf_end _ _ W). pose proof (wf_start _ _ W). unfold read_cdata in EQ. mstep EQ.
+  eapply (for_range_rule inp _
+            (fun i s2 => fr s s2 /\ raw_end s <= raw_end s2 /\ raw_end s2 <= length inp /\ data_start s2 = data_start s
+                         /\ pending_attribute s2 = pending_attribute s)
+            (fun (b : bool) s2 => b = false /\ fr s s2 /\ raw_start s <= raw_end s2 /\ raw_end s2 <= length inp
+                         /\ data_start s2 = data_start s /\ data_start s <= raw_end s2
+                         /\ pending_attribute s2 = pending_attribute s)) in Eh.
+  2:{ clear Eh EQ. intros i s2 r s2' _ Hi HI Eb. norm. cbn [length s_CDATA Nat.add] in Hi. mrun Eb; fin. }
+  2:{ fin. }
+  destruct a0 as [b|]; cbv beta iota in EQ.
+  - norm. subst b. mrun EQ; fin.
+  - norm. mstep EQ. mstep EQ.
+    eapply (loop_in_rule inp _
+              (fun (br : nat) s2 => fr s s2 /\ raw_end s <= raw_end s2 /\ raw_end s2 <= length inp
+                           /\ data_start s2 + br <= raw_end s2
+                           /\ pending_attribute s2 = pending_attribute s)
+              (fun _ s2 => length inp - raw_end s2)
+              (fun (r : option bool) s2 => r = Some true /\ fr s s2 /\ raw_end s <= raw_end s2 /\ raw_end s2 <= length inp
+                           /\ data_start s2 <= data_end s2 /\ data_end s2 <= raw_end s2
+                           /\ pending_attribute s2 = pending_attribute s)) in Eh.
+    + norm. subst. mrun EQ; fin.
+    + clear Eh EQ. intros br s2 r s2' HI Eb. norm. mrun Eb; fin.
+    + fin.
+    + scbn. lia.
+Qed.
+
+Lemma read_markup_declaration_spec inp s a s' : wf inp s -> read_markup_declaration inp s = (a, s') ->
+  fr s s' /\ raw_end s <= raw_end s' /\ raw_end s' <= length inp /\ pending_attribute s' = pending_attribute s
+  /\ data_start s' <= data_end s' /\ data_end s' <= raw_end s'.
+Proof.
+  intros W EQ. pose proof (wf_end _ _ W). pose proof (wf_start _ _ W). unfold read_markup_declaration in EQ.
+  mstep EQ. mstep EQ; mstep EQ; scbn.
+  2:{ mrun EQ; fin. }
+  mstep EQ. { mrun EQ; fin. }
+  mstep EQ; mstep EQ; scbn.
+  2:{ mrun EQ; fin. }
+  mstep EQ. { mrun EQ; fin. }
+  mstep EQ.
+  { mstep EQ. app read_comment_spec. mrun EQ; fin. }
+  mstep EQ. mstep EQ. app read_doc_type_spec. norm. mstep EQ. { mrun EQ; fin. }
+  mstep EQ. mstep EQ.
+  mstep Eh.
+  - app read_cdata_spec. norm. mstep EQ. { mrun EQ; fin. }
+    mstep EQ. app read_until_close_angle_spec. mrun EQ; fin.
+  - mstep Eh. mstep EQ. mstep EQ. app read_until_close_angle_spec. mrun EQ; fin.
+Qed.
+
+(* ---- P7 ---- *)
+
+Lemma list_eq_nth {A} (l1 : list A) : forall l2, length l1 = length l2 ->
+  (forall j, j < length l1 -> nth_error l1 j = nth_error l2 j) -> l1 = l2.
+Proof.
+  induction l1 as [|x l1 IH]; intros [|y l2] HL H; cbn [length] in *; try discriminate; try reflexivity.
+  f_equal.
+  - specialize (H 0 ltac:(lia)). cbn in H. congruence.
+  - apply IH. lia. intros j Hj. apply (H (S j)). lia.
+Qed.
+Lemma nth_error_skipn' {A} (l : list A) a j : nth_error (skipn a l) j = nth_error l (a + j).
+Proof.
+  revert l. induction a as [|a IH]; intros l; cbn [skipn Nat.add]. reflexivity.
+  destruct l as [|x l]. destruct j; reflexivity. cbn [nth_error]. apply IH.
+Qed.
+Lemma nth_error_firstn' {A} (l : list A) n j : j < n -> nth_error (firstn n l) j = nth_error l j.
+Proof.
+  revert l j. induction n as [|n IH]; intros l j H. lia.
+  destruct l as [|x l]; cbn [firstn]. reflexivity. destruct j; cbn [nth_error]. reflexivity. apply IH. lia.
+Qed.
+Lemma nth_error_sub inp a b j : j < b - a -> nth_error (sub inp a b) j = nth_error inp (a + j).
+Proof. intros H. unfold sub. rewrite nth_error_firstn' by exact H. apply nth_error_skipn'. Qed.
+Lemma sub_length inp a b : a <= b -> b <= length inp -> length (sub inp a b) = b - a.
+Proof. intros H1 H2. unfold sub. rewrite firstn_length, skipn_length. lia. Qed.
+
+Lemma upper_add c : is_ascii_uppercase c = true -> (c + 32 <= 255)%N.
+Proof. unfold is_ascii_uppercase. intros H. apply andb_prop in H. destruct H as [H1 H2]. apply N.leb_le in H2. lia. Qed.
+
+Lemma start_tag_in_spec inp ss : forall s a s', wf inp s -> data_start s <= data_end s -> data_end s <= length inp ->
+  start_tag_in ss inp s = (a, s') ->
+  s' = s /\ (a = true -> In (map ascii_lower (sub inp (data_start s) (data_end s))) ss).
+Proof.
+  induction ss as [|s_ ss IH]; intros s a s' W D1 D2 EQ; cbn [start_tag_in] in EQ.
+  - mstep EQ. split; [reflexivity|discriminate].
+  - mstep EQ. mstep EQ. mstep EQ.
+    { apply IH in EQ; auto. destruct EQ as [-> HI]. split; [reflexivity|]. intros Ha. right. auto. }
+    mstep EQ.
+    eapply (for_range_rule inp _
+              (fun i s2 => s2 = s /\ forall j, j < i -> exists c, nth_error inp (data_start s + j) = Some c
+                                                    /\ nth_error s_ j = Some (ascii_lower c))
+              (fun (_ : unit) s2 => s2 = s)) in Eh.
+    2:{ clear Eh EQ. intros i s2 r s2' _ Hi (-> & HI) Eb. cbn [Nat.add] in Hi.
+        mstep Eb. mstep Eb. mstep Eh.
+        - rewrite add_u8_ok in Eh by (apply upper_add; exact C0). apply pair_equal_spec in Eh. destruct Eh; subst.
+          mstep Eb. mstep Eb.
+          + mstep Eb. reflexivity.
+          + mstep Eb. split; [reflexivity|]. intros j Hj. destruct (Nat.eq_dec j i) as [->|Hne].
+            * exists c. split; [exact Hc|]. rewrite Hc0. f_equal. apply N.eqb_eq in C1. unfold ascii_lower.
+              unfold is_ascii_uppercase in C0. rewrite C0. symmetry. exact C1.
+            * apply HI. lia.
+        - mstep Eh. mstep Eb. mstep Eb.
+          + mstep Eb. reflexivity.
+          + mstep Eb. split; [reflexivity|]. intros j Hj. destruct (Nat.eq_dec j i) as [->|Hne].
+            * exists c. split; [exact Hc|]. rewrite Hc0. f_equal. apply N.eqb_eq in C1. unfold ascii_lower.
+              unfold is_ascii_uppercase in C0. rewrite C0. symmetry. exact C1.
+            * apply HI. lia. }
+    2:{ split; [reflexivity|]. intros j Hj. lia. }
+    destruct a0 as [u|]; cbv beta iota in EQ.
+    + subst. apply IH in EQ; auto. destruct EQ as [-> HI]. split; [reflexivity|]. intros Ha. right. auto.
+    + destruct Eh as (-> & HI). mstep EQ. split; [reflexivity|]. intros _. left.
+      symmetry. apply list_eq_nth.
+      * rewrite map_length, sub_length by assumption. lia.
+      * intros j Hj. rewrite map_length, sub_length in Hj by assumption.
+        rewrite nth_error_map, nth_error_sub by exact Hj.
+        destruct (HI j) as (c & Hc1 & Hc2). { cbn [Nat.add]. lia. }
+        rewrite Hc1, Hc2. reflexivity.
+Qed.
+
+(* ---- P8 ---- *)
+
+Lemma skip_white_space_stuck inp s a s' b :
+  nth_error inp (raw_end s) = Some b -> is_ws b = false -> err s = false ->
+  skip_white_space inp s = (a, s') -> raw_end s' = raw_end s /\ err s' = false.
+Proof.
+  intros Hn Hw He EQ. unfold skip_white_space in EQ. mstep EQ. rewrite He in EQ. mstep EQ. mstep EQ.
+  eapply (loop_in_rule inp _ (fun _ s2 => s2 = s) (fun _ s2 => 0)
+            (fun _ s2 => raw_end s2 = raw_end s /\ err s2 = false)) in Eh.
+  - exact Eh.
+  - clear Eh. intros x s2 r s2' -> Eb. mstep Eb; mstep Eb; scbn.
+    + rewrite He in Eb. rewrite Hn in Hb. injection Hb as <-. rewrite Hw in Eb. mrun Eb. scbn. split; [lia|assumption].
+    + apply nth_error_None in Hlt. congruence.
+  - reflexivity.
+  - lia.
+Qed.
+
+Definition dsame (s s' : st) : Prop := data_start s' = data_start s /\ data_end s' = data_end s.
+
+Lemma read_tag_name_spec inp s a s' : wf inp s -> 1 <= raw_end s -> read_tag_name inp s = (a, s') ->
+  fr s s' /\ pending_attribute s' = pending_attribute s /\ raw_end s <= raw_end s' /\ raw_end s' <= length inp
+  /\ data_start s' + 1 = raw_end s /\ data_start s' <= data_end s' /\ data_end s' <= raw_end s'.
+Proof.
+  intros W H1 EQ. pose proof (wf_end _ _ W). unfold read_tag_name in EQ. mstep EQ. mstep EQ. mstep EQ. mstep EQ.
+  eapply (loop_in_rule inp _
+            (fun _ s2 => fr s s2 /\ pending_attribute s2 = pending_attribute s /\ raw_end s <= raw_end s2
+                         /\ raw_end s2 <= length inp /\ data_start s2 + 1 = raw_end s)
+            (fun _ s2 => length inp - raw_end s2)
+            (fun _ s2 => fr s s2 /\ pending_attribute s2 = pending_attribute s /\ raw_end s <= raw_end s2
+                         /\ raw_end s2 <= length inp /\ data_start s2 + 1 = raw_end s
+                         /\ data_start s2 <= data_end s2 /\ data_end s2 <= raw_end s2)) in Eh.
+  - mrun EQ; fin.
+  - clear Eh EQ. intros x s2 r s2' HI Eb. norm. mrun Eb; fin.
+  - fin.
+  - scbn. lia.
+Qed.
+
+Lemma is_eq b c : is b c = true -> b = c.
+Proof. unfold is. apply N.eqb_eq. Qed.
+
+Lemma read_tag_name_attr_key_spec inp s a s' : wf inp s -> read_tag_name_attr_key inp s = (a, s') ->
+  fr s s' /\ dsame s s' /\ raw_end s <= raw_end s' /\ raw_end s' <= length inp
+  /\ fst (fst (pending_attribute s')) = raw_end s
+  /\ raw_end s <= snd (fst (pending_attribute s')) /\ snd (fst (pending_attribute s')) <= raw_end s'
+  /\ snd (pending_attribute s') = snd (pending_attribute s)
+  /\ (err s' = false ->
+      raw_end s + 1 <= raw_end s'
+      \/ (raw_end s' = raw_end s
+          /\ (nth_error inp (raw_end s) = Some EQUALS \/ nth_error inp (raw_end s) = Some GT))).
+Proof.
+  intros W EQ. pose proof (wf_end _ _ W). unfold read_tag_name_attr_key in EQ. mstep EQ. mstep EQ.
+  eapply (loop_in_rule inp _
+            (fun _ s2 => fr s s2 /\ dsame s s2 /\ raw_end s <= raw_end s2 /\ raw_end s2 <= length inp
+                         /\ fst (fst (pending_attribute s2)) = raw_end s
+                         /\ snd (pending_attribute s2) = snd (pending_attribute s))
+            (fun _ s2 => length inp - raw_end s2)
+            (fun _ s2 => fr s s2 /\ dsame s s2 /\ raw_end s <= raw_end s2 /\ raw_end s2 <= length inp
+                         /\ fst (fst (pending_attribute s2)) = raw_end s
+                         /\ raw_end s <= snd (fst (pending_attribute s2))
+                         /\ snd (fst (pending_attribute s2)) <= raw_end s2
+                         /\ snd (pending_attribute s2) = snd (pending_attribute s)
+                         /\ (err s2 = false ->
+                             raw_end s + 1 <= raw_end s2
+                             \/ (raw_end s2 = raw_end s
+                                 /\ (nth_error inp (raw_end s) = Some EQUALS \/ nth_error inp (raw_end s) = Some GT))))) in Eh.
+  - mrun EQ; fin.
+  - clear Eh EQ. intros x s2 r s2' HI Eb. unfold dsame in *. norm. mrun Eb; fin.
+    destruct (Nat.eq_dec (raw_end s2) (raw_end s)) as [Heq|Hne]; [right|left; alia].
+    split; [lia|]. rewrite <- Heq, Hb. apply orb_prop in C1. destruct C1 as [C1|C1]; apply is_eq in C1; subst; auto.
+  - unfold dsame. fin.
+  - scbn. lia.
+Qed.
+
+Lemma read_tag_name_attr_value_spec inp s a s' : wf inp s -> read_tag_name_attr_value inp s = (a, s') ->
+  fr s s' /\ dsame s s' /\ raw_end s <= raw_end s' /\ raw_end s' <= length inp
+  /\ fst (pending_attribute s') = fst (pending_attribute s)
+  /\ fst (snd (pending_attribute s')) <= snd (snd (pending_attribute s'))
+  /\ snd (snd (pending_attribute s')) <= raw_end s'
+  /\ (nth_error inp (raw_end s) = Some EQUALS -> err s' = false -> raw_end s + 1 <= raw_end s').
+Proof.
+  intros W EQ. pose proof (wf_end _ _ W). unfold read_tag_name_attr_value in EQ.
+  mstep EQ. mstep EQ. mstep EQ.
+  match goal with Eh : skip_white_space _ ?st = _ |- _ =>
+    pose proof (fun b H1 H2 H3 => skip_white_space_stuck inp st _ _ b H1 H2 H3 Eh) as Hstuck end.
+  app skip_white_space_spec. norm. scbn.
+  mstep EQ. mstep EQ. { mrun EQ; unfold dsame; fin. }
+  mstep EQ; mstep EQ; scbn.
+  2:{ mrun EQ; unfold dsame; fin. }
+  mstep EQ. { mrun EQ; unfold dsame; fin. }
+  mstep EQ.
+  { (* not '=' : un-read *) mrun EQ; unfold dsame; fin.
+    exfalso. destruct (err s) eqn:Hes; [intuition congruence|].
+    match goal with H0 : nth_error inp (raw_end s) = Some EQUALS |- _ =>
+      destruct (Hstuck EQUALS H0 eq_refl eq_refl) as [Hre Her]; rewrite Hre in Hb; rewrite H0 in Hb end.
+    injection Hb as <-. discriminate C1. }
+  (* '=' read *)
+  mstep EQ. app skip_white_space_spec. norm. scbn. mstep EQ. mstep EQ. { mrun EQ; unfold dsame; fin. }
+  mstep EQ; mstep EQ; scbn.
+  2:{ mrun EQ; unfold dsame; fin. }
+  mstep EQ. { mrun EQ; unfold dsame; fin. }
+  mstep EQ. { mrun EQ; unfold dsame; fin. }
+  mstep EQ.
+  - (* quoted *)
+    mstep EQ. mstep EQ.
+    match goal with Eh : loop_in _ _ _ ?st = _ |- _ => set (s9 := st) in * end.
+    eapply (loop_in_rule inp _
+              (fun _ s2 => fr s s2 /\ dsame s s2 /\ raw_end s9 <= raw_end s2 /\ raw_end s2 <= length inp
+                           /\ fst (pending_attribute s2) = fst (pending_attribute s)
+                           /\ fst (snd (pending_attribute s2)) = raw_end s9)
+              (fun _ s2 => length inp - raw_end s2)
+              (fun _ s2 => fr s s2 /\ dsame s s2 /\ raw_end s9 <= raw_end s2 /\ raw_end s2 <= length inp
+                           /\ fst (pending_attribute s2) = fst (pending_attribute s)
+                           /\ fst (snd (pending_attribute s2)) <= snd (snd (pending_attribute s2))
+                           /\ snd (snd (pending_attribute s2)) <= raw_end s2)) in Eh.
+    + subst s9. mrun EQ; unfold dsame in *; fin.
+    + clear Eh EQ. intros x t2 r t2' HI Eb. unfold dsame in *. norm. subst s9. scbn. mrun Eb; fin.
+    + subst s9. unfold dsame. fin.
+    + subst s9. scbn. alia.
+  - (* unquoted *)
+    mstep EQ. mstep EQ. mstep EQ.
+    match goal with Eh : loop_in _ _ _ ?st = _ |- _ => set (s9 := st) in * end.
+    eapply (loop_in_rule inp _
+              (fun _ s2 => fr s s2 /\ dsame s s2 /\ raw_end s9 <= raw_end s2 /\ raw_end s2 <= length inp
+                           /\ fst (pending_attribute s2) = fst (pending_attribute s)
+                           /\ fst (snd (pending_attribute s2)) + 1 = raw_end s9)
+              (fun _ s2 => length inp - raw_end s2)
+              (fun _ s2 => fr s s2 /\ dsame s s2 /\ raw_end s9 <= raw_end s2 + 1 /\ raw_end s2 <= length inp
+                           /\ fst (pending_attribute s2) = fst (pending_attribute s)
+                           /\ fst (snd (pending_attribute s2)) <= snd (snd (pending_attribute s2))
+                           /\ snd (snd (pending_attribute s2)) <= raw_end s2)) in Eh.
+    + subst s9. mrun EQ; unfold dsame in *; fin.
+    + clear Eh EQ. intros x t2 r t2' HI Eb. unfold dsame in *. norm. subst s9. scbn. mrun Eb; fin.
+    + subst s9. unfold dsame. fin.
+    + subst s9. scbn. alia.
+Qed.
+
+
+(* ---- P9 ---- *)
+
+Lemma pres_err {A} (m : M A) inp s a s' : Pres m -> m inp s = (a, s') -> err s' = false -> err s = false.
+Proof. intros P EQ H. pose proof (P inp s) as X. rewrite EQ in X. apply (ext_err _ _ X). exact H. Qed.
+
+(* fr without the attribute vector *)
+Record fra (s s' : st) : Prop := mk_fra {
+  fra_rs : raw_start s' = raw_start s;
+  fra_tag : raw_tag s' = raw_tag s;
+  fra_cd : allow_cdata s' = allow_cdata s;
+  fra_panic : panic s' = panic s;
+  fra_oof : oof s' = oof s
+}.
+Lemma fr_fra s s' : fr s s' -> fra s s'.
+Proof. intros []. constructor; assumption. Qed.
+
+Ltac wsplit := repeat match goal with |- _ /\ _ => split end.
+
+Lemma wf_set_err inp t b : wf inp t -> wf inp (set_err b t).
+Proof. intros []. constructor; assumption. Qed.
+Lemma fra_set_err s t b : fra s t -> fra s (set_err b t).
+Proof. intros []. constructor; assumption. Qed.
+Lemma wf_set_raw_end inp t p : wf inp t -> raw_start t <= p -> p <= length inp -> wf inp (set_raw_end p t).
+Proof. intros [] H1 H2. constructor; try assumption. Qed.
+Lemma fra_set_raw_end s t p : fra s t -> fra s (set_raw_end p t).
+Proof. intros []. constructor; assumption. Qed.
+
+Lemma read_tag_spec save inp s a s' : wf inp s -> 1 <= raw_end s -> read_tag save inp s = (a, s') ->
+  wf inp s' /\ fra s s' /\ raw_end s <= raw_end s'
+  /\ data_start s' + 1 = raw_end s /\ data_start s' <= data_end s' /\ data_end s' <= raw_end s'.
+Proof.
+  intros W H1 EQ. pose proof (wf_end _ _ W). pose proof (wf_start _ _ W). unfold read_tag in EQ.
+  mstep EQ. mstep EQ.
+  set (s1 := set_number_attribute_returned 0 (set_attribute [] s)) in *.
+  assert (W1 : wf inp s1). { destruct W. constructor; subst s1; scbn; auto; alia. }
+  assert (F1 : fra s s1). { constructor; reflexivity. }
+  assert (R1 : raw_end s1 = raw_end s) by reflexivity.
+  assert (A1 : attribute s1 = []) by reflexivity.
+  clearbody s1.
+  mstep EQ. apply read_tag_name_spec in Eh; [|exact W1|alia]. destruct Eh as (Fa & Pa & La1 & La2 & Da1 & Da2 & Da3).
+  assert (Wa : wf inp s0) by (pose proof (wf_start _ _ W1); apply (wf_fr inp s1 s0 W1 Fa); alia).
+  mstep EQ. apply skip_white_space_spec in Eh; [|exact Wa]. destruct Eh as (Fb & Lb1 & Lb2 & (Db1 & Db2 & Db3) & _).
+  assert (Wb : wf inp s2) by (pose proof (wf_start _ _ Wa); apply (wf_fr inp s0 s2 Wa Fb); alia).
+  mstep EQ. mstep EQ.
+  { mstep EQ. split; [exact Wb|]. split.
+    { destruct F1, Fa, Fb. constructor; congruence. }
+    wsplit; alia. }
+  mstep EQ.
+  eapply (loop_in_rule inp _
+            (fun _ t => wf inp t /\ fra s t /\ raw_end s2 <= raw_end t
+                        /\ data_start t = data_start s2 /\ data_end t = data_end s2
+                        /\ length (attribute t) + raw_end s2 <= raw_end t)
+            (fun _ t => length inp - raw_end t)
+            (fun _ t => wf inp t /\ fra s t /\ raw_end s2 <= raw_end t
+                        /\ data_start t = data_start s2 /\ data_end t = data_end s2
+                        /\ length (attribute t) + raw_end s2 <= raw_end t)) in Eh.
+  - destruct Eh as (Wf & Ff & Lf & Df1 & Df2 & Nf). mstep EQ. wsplit; auto; alia.
+  - clear Eh EQ. intros x t r t' (Wt & Ft & Lt & Dt1 & Dt2 & Nt) Eb.
+    pose proof (wf_end _ _ Wt) as Et. pose proof (wf_start _ _ Wt) as St.
+    mstep Eb; mstep Eb; scbn.
+    2:{ mrun Eb. scbn. wsplit; [apply wf_set_err; exact Wt|apply fra_set_err; exact Ft|scbn; alia..]. }
+    mstep Eb.
+    { mstep Eb. scbn. wsplit; [apply wf_set_raw_end; [exact Wt|alia|alia]|apply fra_set_raw_end; exact Ft|scbn; alia..]. }
+    apply orb_false_elim in C0. destruct C0 as [Ce Cg].
+    mstep Eb. scbn.
+    set (t0 := set_raw_end (S (raw_end t) - 1) (set_raw_end (S (raw_end t)) t)) in *.
+    assert (Wt0 : wf inp t0). { subst t0. apply wf_set_raw_end; [apply wf_set_raw_end; [exact Wt|alia|alia]|scbn; alia|alia]. }
+    assert (Rt0 : raw_end t0 = raw_end t) by (subst t0; scbn; alia).
+    assert (Ft0 : fra s t0). { subst t0. apply fra_set_raw_end, fra_set_raw_end. exact Ft. }
+    assert (Dt0 : data_start t0 = data_start s2 /\ data_end t0 = data_end s2) by (subst t0; scbn; auto).
+    assert (Et0 : err t0 = false) by (subst t0; scbn; auto).
+    assert (At0 : attribute t0 = attribute t) by (subst t0; reflexivity).
+    clearbody t0.
+    mstep Eb. lazymatch type of Eh with _ = (_, ?y) => rename y into tk end. pose proof (pres_err _ _ _ _ _ pres_read_tag_name_attr_key Eh) as Ek.
+    apply read_tag_name_attr_key_spec in Eh; [|exact Wt0]. destruct Eh as (Fk & (Dk1 & Dk2) & Lk1 & Lk2 & Pk1 & Pk2 & Pk3 & Pk4 & Pk5).
+    assert (Wk : wf inp tk) by (pose proof (wf_start _ _ Wt0); apply (wf_fr inp t0 tk Wt0 Fk); alia).
+    mstep Eb. lazymatch type of Eh with _ = (_, ?y) => rename y into tv end. pose proof (pres_err _ _ _ _ _ pres_read_tag_name_attr_value Eh) as Ev.
+    apply read_tag_name_attr_value_spec in Eh; [|exact Wk]. destruct Eh as (Fv & (Dv1 & Dv2) & Lv1 & Lv2 & Pv1 & Pv2 & Pv3 & Pv4).
+    assert (Wv : wf inp tv) by (pose proof (wf_start _ _ Wk); apply (wf_fr inp tk tv Wk Fv); alia).
+    mstep Eb. mstep Eb.
+    assert (Atv : attribute tv = attribute t) by (destruct Fk, Fv; congruence).
+    match goal with Eh : _ inp tv = (?u, ?t5) |- _ => rename t5 into tp end.
+    match goal with Eh : _ inp tv = (?u, ?t5) |- _ =>
+      assert (X5 : wf inp t5 /\ fra tv t5 /\ raw_end t5 = raw_end tv /\ err t5 = err tv
+                   /\ data_start t5 = data_start tv /\ data_end t5 = data_end tv
+                   /\ length (attribute t5) + raw_end s2 <= raw_end t5) end.
+    { mstep Eh.
+      - apply andb_prop in C0. destruct C0 as [_ Cne]. apply negb_true_iff, Nat.eqb_neq in Cne.
+        rewrite Pv1 in Cne.
+        mstep Eh. scbn. wsplit; auto. 2:{ constructor; reflexivity. }
+        + destruct Wv. constructor; scbn; auto.
+          * apply Forall_app. split; [assumption|].
+            constructor; [|constructor]. unfold attr_ok, span_ok. rewrite Pv1. alia.
+          * rewrite app_length, Atv. cbn [length]. alia.
+        + rewrite app_length, Atv. cbn [length]. alia.
+      - mstep Eh. wsplit; auto. constructor; reflexivity. rewrite Atv. alia. }
+    clear Eh. destruct X5 as (W5 & F5 & R5 & E5 & D51 & D52 & N5).
+    mstep Eb. lazymatch type of Eh with _ = (_, ?y) => rename y into ts end. pose proof (pres_err _ _ _ _ _ pres_skip_white_space Eh) as Es.
+    apply skip_white_space_spec in Eh; [|exact W5]. destruct Eh as (Fs & Ls1 & Ls2 & (Ds1 & Ds2 & Ds3) & _).
+    assert (Ws : wf inp ts) by (pose proof (wf_start _ _ W5); match type of Fs with fr ?x _ => apply (wf_fr inp x ts W5 Fs) end; alia).
+    assert (Ats : attribute ts = attribute tp) by (destruct Fs; assumption).
+    assert (Ffin : fra s ts).
+    { destruct Ft0, Fk, Fv, F5, Fs. constructor; congruence. }
+    mstep Eb. mstep Eb; mstep Eb.
+    + wsplit; auto; try alia. rewrite Ats. alia.
+    + split; [wsplit; auto; try alia; rewrite Ats; alia|].
+      (* progress *)
+      assert (E4 : err tv = false) by (rewrite <- E5; apply Es; first [exact C0|reflexivity]).
+      assert (E3 : err tk = false) by (apply Ev; exact E4).
+      destruct (Pk5 E3) as [Hp|(Hp & Hc)].
+      * lia.
+      * assert (Hq : nth_error inp (raw_end tk) = Some EQUALS).
+        { rewrite Hp. destruct Hc as [Hc|Hc]; [exact Hc|]. rewrite Rt0, Hb in Hc. injection Hc as ->. discriminate Cg. }
+        specialize (Pv4 Hq E4). lia.
+  - wsplit; auto; try alia. destruct F1, Fa, Fb. constructor; congruence.
+    assert (A2 : attribute s2 = []) by (destruct Fa, Fb; congruence). rewrite A2. cbn [length]. alia.
+  - alia.
+Qed.
+
+(* ---- P10 ---- *)
+
+(* the only hypothesis on the lowercase oracle: on the ten raw-text element names it is ASCII lowercasing *)
+Definition lower_ok (lower : str -> str) : Prop :=
+  forall t, In (map ascii_lower t) raw_text_elements -> lower t = map ascii_lower t.
+
+Lemma wf_set_raw_tag inp t tg : wf inp t -> tag_ok tg -> wf inp (set_raw_tag tg t).
+Proof. intros [] H. constructor; assumption. Qed.
+
+Ltac closer := wsplit; auto; try congruence; try alia; try (let tk := fresh "tk" in let Hk := fresh "Hk" in intros tk Hk; first [discriminate Hk | injection Hk as <-; auto]).
+
+Lemma read_start_tag_spec lower inp s r s' : lower_ok lower -> wf inp s -> raw_start s + 2 <= raw_end s ->
+  read_start_tag lower inp s = (r, s') ->
+  wf inp s' /\ raw_start s' = raw_start s /\ allow_cdata s' = allow_cdata s /\ raw_end s <= raw_end s'
+  /\ data_start s' <= data_end s' /\ data_end s' <= length inp
+  /\ (forall tk, r = ROk tk -> tk = ErrorToken \/ tk = StartTagToken \/ tk = SelfClosingTagToken).
+Proof.
+  intros LO W H2 EQ. pose proof (wf_end _ _ W). unfold read_start_tag in EQ.
+  mstep EQ. lazymatch type of Eh with _ = (_, ?y) => rename y into t1 end.
+  apply read_tag_spec in Eh; [|exact W|alia]. destruct Eh as (W1 & F1 & L1 & D1 & D2 & D3).
+  pose proof (wf_end _ _ W1) as E1. pose proof (wf_start _ _ W1) as S1. destruct F1 as [Frs Ftag Fcd Fp Fo].
+  mstep EQ. mstep EQ.
+  { mstep EQ. closer. }
+  mstep EQ. mstep EQ. lazymatch type of Eh with _ = (?y, _) => rename y into b1 end.
+  assert (Hs0 : s0 = t1).
+  { mstep Eh. rewrite add_u8_ok in Eh by (apply upper_add; assumption). apply pair_equal_spec in Eh. destruct Eh; auto.
+    mstep Eh. reflexivity. }
+  clear Eh. subst s0.
+  mstep EQ. lazymatch type of Eh with _ = (?y, ?z) => rename y into israw; rename z into t2 end.
+  assert (Hraw : t2 = t1 /\ (israw = true -> In (map ascii_lower (sub inp (data_start t1) (data_end t1))) raw_text_elements)).
+  { repeat (mstep Eh);
+      try (apply start_tag_in_spec in Eh; [|exact W1|alia|alia]; destruct Eh as [-> Hin]; split; [reflexivity|];
+           intros Ht; specialize (Hin Ht); cbn in Hin |- *; tauto).
+    split; [reflexivity|discriminate]. }
+  clear Eh. destruct Hraw as [-> Hraw].
+  mstep EQ. lazymatch type of Eh with _ = (?y, ?z) => rename y into ok; rename z into t3 end.
+  assert (H3 : wf inp t3 /\ raw_start t3 = raw_start t1 /\ allow_cdata t3 = allow_cdata t1 /\ raw_end t3 = raw_end t1
+               /\ data_start t3 = data_start t1 /\ data_end t3 = data_end t1 /\ err t3 = err t1).
+  { mstep Eh.
+    - specialize (Hraw eq_refl). mstep Eh. mstep Eh.
+      + mstep Eh. mstep Eh. wsplit; try reflexivity. apply wf_set_raw_tag; [exact W1|].
+        right. unfold sub in Hraw. rewrite (LO _ Hraw). exact Hraw.
+      + mstep Eh. wsplit; auto.
+    - mstep Eh. wsplit; auto. }
+  clear Eh. destruct H3 as (W3 & R3 & C3 & E3 & D31 & D32 & Er3).
+  mstep EQ.
+  { mstep EQ. closer. }
+  mstep EQ. mstep EQ.
+  - mstep EQ. mstep EQ. mstep EQ; mstep EQ; closer.
+  - mstep EQ. closer.
+Qed.
+
+Lemma read_raw_or_cdata_spec inp s a s' : wf inp s -> read_raw_or_cdata inp s = (a, s') ->
+  wf inp s' /\ raw_start s' = raw_start s /\ allow_cdata s' = allow_cdata s
+  /\ data_start s' = data_start s /\ data_end s' = raw_end s'.
+Proof.
+  intros W EQ. pose proof (wf_end _ _ W). pose proof (wf_start _ _ W). unfold read_raw_or_cdata in EQ.
+  mstep EQ. mstep EQ.
+  - apply str_eqb_spec in C. mstep EQ. apply read_script_spec in Eh; [|exact W|exact C].
+    destruct Eh as (F & L1 & L2 & D1 & D2 & _). mstep EQ. mstep EQ. destruct F. destruct W.
+    wsplit; scbn; auto. constructor; scbn; try congruence; try alia. left; reflexivity.
+  - clear C. mstep EQ.
+    eapply (loop_in_rule inp _
+              (fun _ t => fr s t /\ dkeep s t /\ raw_start s <= raw_end t /\ raw_end t <= length inp)
+              (fun _ t => length inp - raw_end t)
+              (fun _ t => fr s t /\ dkeep s t /\ raw_start s <= raw_end t /\ raw_end t <= length inp)) in Eh.
+    + destruct Eh as (F & (D1 & D2 & D3) & L1 & L2). cbv zeta in EQ. mstep EQ. mstep EQ. mstep EQ. destruct F. destruct W.
+      wsplit; scbn; auto. constructor; scbn; try congruence; try alia. left; reflexivity.
+    + clear Eh EQ. intros x t r t' HI Eb. norm.
+      mstep Eb; mstep Eb; scbn.
+      2:{ mrun Eb; fin. }
+      mstep Eb. { mrun Eb; fin. }
+      mstep Eb. { mrun Eb; fin. }
+      mstep Eb; mstep Eb; scbn.
+      2:{ mrun Eb; fin. }
+      mstep Eb. { mrun Eb; fin. }
+      mstep Eb. { mrun Eb; fin. }
+      mstep Eb. apply read_raw_end_tag_spec in Eh; [|wfs|scbn; alia].
+      destruct Eh as (F2 & D2 & L2 & Ht & Hf). mstep Eb. destruct a3; [specialize (Ht eq_refl)|specialize (Hf eq_refl)].
+      * mrun Eb; fin.
+      * mrun Eb; fin.
+    + fin.
+    + alia.
+Qed.
+
+(* ---- P11 ---- *)
+
+(* wf without raw_start <= raw_end: next resets raw_start *)
+Definition wf0 (inp : list N) (s : st) : Prop :=
+  raw_end s <= length inp /\ panic s = None /\ oof s = false
+  /\ Forall (attr_ok (length inp)) (attribute s) /\ tag_ok (raw_tag s) /\ length (attribute s) <= length inp.
+
+Definition next_post (p : nat) (inp : list N) (r : result token_type) (s' : st) : Prop :=
+  wf inp s' /\ raw_start s' = p
+  /\ data_start s' <= data_end s' /\ data_end s' <= length inp
+  /\ (forall tk, r = ROk tk -> token s' = tk)
+  /\ (forall tk, r = ROk tk -> tk <> ErrorToken -> p < raw_end s').
+
+Ltac npost := unfold next_post; wsplit; scbn; auto; try congruence; try alia;
+  try (let tk := fresh "tk" in let Hk := fresh "Hk" in intros tk Hk;
+       first [discriminate Hk | injection Hk as <-; scbn; first [reflexivity | congruence | intros; alia | idtac]]).
+
+Lemma wf_upd_token inp t k : wf inp t -> wf inp (set_token k t).
+Proof. intros []. constructor; assumption. Qed.
+Lemma wf_upd_data_end inp t k : wf inp t -> wf inp (set_data_end k t).
+Proof. intros []. constructor; assumption. Qed.
+Lemma wf_upd_data_start inp t k : wf inp t -> wf inp (set_data_start k t).
+Proof. intros []. constructor; assumption. Qed.
+Lemma wf_upd_convert_null inp t k : wf inp t -> wf inp (set_convert_null k t).
+Proof. intros []. constructor; assumption. Qed.
+Lemma wf_upd_text_is_raw inp t k : wf inp t -> wf inp (set_text_is_raw k t).
+Proof. intros []. constructor; assumption. Qed.
+#[export] Hint Resolve wf_upd_token wf_upd_data_end wf_upd_data_start wf_upd_convert_null wf_upd_text_is_raw
+  wf_set_err wf_set_raw_tag : wfdb.
+
+Ltac wfr :=
+  repeat first [ assumption | apply wf_set_err | apply wf_upd_token | apply wf_upd_data_end | apply wf_upd_data_start
+               | apply wf_upd_convert_null | apply wf_upd_text_is_raw | apply wf_set_raw_end ];
+  scbn; try alia.
+
+Lemma next_spec lower inp s r s' : lower_ok lower -> wf0 inp s -> next lower inp s = (r, s') ->
+  next_post (raw_end s) inp r s'.
+Proof.
+  intros LO (W1 & W2 & W3 & W4 & W5 & W6) EQ. unfold next in EQ.
+  mstep EQ. mstep EQ. mstep EQ. scbn.
+  set (p := raw_end s) in *.
+  set (s0 := set_data_end p (set_data_start p (set_raw_start p s))) in *.
+  assert (W0 : wf inp s0) by (constructor; subst s0 p; scbn; auto).
+  assert (R0 : raw_start s0 = p /\ raw_end s0 = p /\ data_start s0 = p /\ data_end s0 = p) by (subst s0; scbn; auto).
+  destruct R0 as (R01 & R02 & R03 & R04).
+  clearbody s0.
+  mstep EQ. mstep EQ.
+  { mrun EQ. npost; auto with wfdb. }
+  mstep EQ. lazymatch type of Eh with _ = (?y, ?z) => rename y into returned; rename z into t1 end.
+  assert (H1 : (returned = true /\ wf inp t1 /\ raw_start t1 = p /\ data_start t1 = p /\ data_start t1 < data_end t1
+                /\ data_end t1 <= raw_end t1 /\ token t1 = TextToken)
+               \/ (returned = false /\ wf inp t1 /\ raw_start t1 = p /\ p <= raw_end t1
+                   /\ data_start t1 = p /\ data_end t1 = p)).
+  { mstep Eh.
+    2:{ mstep Eh. right. wsplit; auto; alia. }
+    mstep Eh. lazymatch type of Eh0 with _ = (_, ?z) => rename z into t2 end.
+    assert (H2 : wf inp t2 /\ raw_start t2 = p /\ data_start t2 = p /\ data_end t2 = raw_end t2).
+    { mstep Eh0.
+      - mstep Eh0.
+        eapply (loop_in_rule inp _
+                  (fun _ t => wf inp t /\ raw_start t = p /\ data_start t = p)
+                  (fun _ t => (length inp - raw_end t) + (if err t then 0 else 1))
+                  (fun _ t => wf inp t /\ raw_start t = p /\ data_start t = p)) in Eh1.
+        + destruct Eh1 as (Wl & Rl & Dl). cbv zeta in Eh0. mstep Eh0. mstep Eh0. wsplit; scbn; auto with wfdb.
+        + clear Eh1. intros x t rr t' (Wt & Rt & Dt) Eb. pose proof (wf_end _ _ Wt). pose proof (wf_start _ _ Wt).
+          mstep Eb. mstep Eb.
+          * match goal with Hc : err t = false |- _ => rename Hc into Cerr end.
+            mstep Eb; mstep Eb; scbn; rewrite ?Cerr.
+            -- split; [wsplit; auto; apply wf_set_raw_end; auto; alia|]. alia.
+            -- split; [wsplit; auto with wfdb|]. alia.
+          * mstep Eb. auto.
+        + auto.
+        + destruct (err s0); alia.
+      - apply read_raw_or_cdata_spec in Eh0; [|exact W0]. destruct Eh0 as (Wr & Rr & Cr & Dr1 & Dr2).
+        wsplit; auto; congruence. }
+    clear Eh0. destruct H2 as (Wt2 & Rt2 & Dt21 & Dt22). pose proof (wf_end _ _ Wt2). pose proof (wf_start _ _ Wt2).
+    mstep Eh. mstep Eh.
+    - mstep Eh. mstep Eh. mstep Eh. left. wsplit; scbn; auto with wfdb; alia.
+    - mstep Eh. right. wsplit; auto; alia. }
+  clear Eh. destruct H1 as [(-> & Wt1 & Rt1 & Dt11 & Dt12 & Dt13 & Tk1) | (-> & Wt1 & Rt1 & Lt1 & Dt11 & Dt12)].
+  { mstep EQ. pose proof (wf_end _ _ Wt1). pose proof (wf_start _ _ Wt1). npost. }
+  cbv beta iota in EQ. mstep EQ. mstep EQ. scbn.
+  set (t3 := set_convert_null false (set_text_is_raw false t1)) in *.
+  assert (Wt3 : wf inp t3) by (subst t3; auto with wfdb).
+  assert (Rt3 : raw_start t3 = p /\ raw_end t3 = raw_end t1 /\ data_start t3 = p /\ data_end t3 = data_end t1)
+    by (subst t3; scbn; auto).
+  destruct Rt3 as (Rt31 & Rt32 & Rt33 & Rt34). clearbody t3.
+  mstep EQ. lazymatch type of Eh with _ = (?y, ?z) => rename y into lres; rename z into tl end.
+  eapply (loop_in_rule inp _
+            (fun _ t => wf inp t /\ raw_start t = p /\ data_start t = p /\ data_end t = p /\ data_end t = data_end t3)
+            (fun _ t => length inp - raw_end t)
+            (fun (res : option (result token_type)) t =>
+               match res with
+               | Some r => next_post p inp r t
+               | None => wf inp t /\ raw_start t = p /\ data_start t = p /\ data_end t = p
+               end)) in Eh.
+  - destruct lres as [res|]; cbv beta iota in EQ, Eh.
+    + mstep EQ. exact Eh.
+    + destruct Eh as (Wf & Rf & Df1 & Df2). pose proof (wf_end _ _ Wf). pose proof (wf_start _ _ Wf).
+      mstep EQ. mstep EQ.
+      * mrun EQ. npost; auto with wfdb.
+      * mrun EQ. npost; auto with wfdb.
+  - clear Eh EQ. intros x t rr t' (Wt & Rt & Dt1 & Dt2 & Dt3) Eb.
+    pose proof (wf_end _ _ Wt) as Et. pose proof (wf_start _ _ Wt) as St.
+    mstep Eb; mstep Eb; scbn.
+    2:{ mrun Eb. scbn. wsplit; auto with wfdb. }
+    mstep Eb. { mrun Eb. scbn. wsplit; auto. wfr. }
+    mstep Eb. { mrun Eb. scbn. split; [wsplit; auto; wfr|alia]. }
+    mstep Eb; mstep Eb; scbn.
+    2:{ mrun Eb. scbn. wsplit; auto. wfr. }
+    mstep Eb. { mrun Eb. scbn. wsplit; auto. wfr. }
+    cbv zeta in Eb.
+    set (t4 := set_raw_end (S (S (raw_end t))) (set_raw_end (S (raw_end t)) t)) in *.
+    assert (Wt4 : wf inp t4) by (subst t4; apply wf_set_raw_end; [wfr|scbn; alia|alia]).
+    assert (Rt4 : raw_start t4 = p /\ raw_end t4 = S (S (raw_end t)) /\ data_start t4 = p /\ data_end t4 = data_end t3)
+      by (subst t4; scbn; auto).
+    destruct Rt4 as (Rt41 & Rt42 & Rt43 & Rt44). clearbody t4.
+    match type of Eb with (match ?c with _ => _ end) _ _ = _ => destruct c as [tt0|] eqn:Ctt end.
+    2:{ (* not a tag: un-read *) mstep Eb. mstep Eb. scbn.
+        split; [wsplit; scbn; auto; try alia; wfr|alia]. }
+    mstep Eb. mstep Eb.
+    { (* text before the tag *) mrun Eb. npost. wfr. }
+    destruct tt0; try (mstep Eb; exfalso; revert Ctt; repeat match goal with |- context [if ?c then _ else _] => destruct c end; discriminate).
+    + (* StartTagToken *)
+      mstep Eb. lazymatch type of Eh with _ = (?y, ?z) => rename y into rs; rename z into ts end.
+      apply read_start_tag_spec in Eh; [|exact LO|exact Wt4|alia].
+      destruct Eh as (Ws & Rs & Cs & Ls & Ds1 & Ds2 & Hs). pose proof (wf_end _ _ Ws). pose proof (wf_start _ _ Ws).
+      destruct rs as [tk1|].
+      * mstep Eb. mstep Eb. npost; auto with wfdb.
+      * mstep Eb. npost.
+    + (* EndTagToken *)
+      mstep Eb; mstep Eb; scbn.
+      2:{ mrun Eb. scbn. wsplit; auto; try alia. wfr. }
+      mstep Eb. { mrun Eb. scbn. wsplit; auto; try alia. wfr. }
+      mstep Eb. { mrun Eb. npost. wfr. }
+      mstep Eb.
+      * mstep Eb. apply read_tag_spec in Eh; [|apply wf_set_raw_end; [exact Wt4|alia|alia]|scbn; alia].
+        destruct Eh as (Wg & Fg & Lg & Dg1 & Dg2 & Dg3). destruct Fg as [Fg1 Fg2 Fg3 Fg4 Fg5]. scbn.
+        pose proof (wf_end _ _ Wg). pose proof (wf_start _ _ Wg).
+        mstep Eb. mstep Eb. mstep Eh; mstep Eh; mstep Eb; mstep Eb; npost; auto with wfdb.
+      * mstep Eb. mstep Eb. lazymatch type of Eh with _ = (_, ?z) => rename z into tu end.
+        apply read_until_close_angle_spec in Eh; [|wfr].
+        destruct Eh as (Fr & L1 & L2 & D1 & D2 & D3 & _ & _). scbn.
+        assert (Wu : wf inp tu). { eapply (wf_fr inp _ tu); [|exact Fr|scbn; alia|alia]. wfr. }
+        destruct Fr as [Fr1 _ _ _ _ _]. scbn. mrun Eb. npost; auto with wfdb.
+    + (* CommentToken *)
+      mstep Eb.
+      * mstep Eb. lazymatch type of Eh with _ = (_, ?z) => rename z into tu end.
+        apply read_markup_declaration_spec in Eh; [|exact Wt4].
+        destruct Eh as (Fr & L1 & L2 & _ & D1 & D2).
+        assert (Wu : wf inp tu). { eapply (wf_fr inp _ tu); [exact Wt4|exact Fr|alia|alia]. }
+        destruct Fr as [Fr1 _ _ _ _ _]. mrun Eb. npost; auto with wfdb.
+      * mstep Eb. mstep Eb. lazymatch type of Eh with _ = (_, ?z) => rename z into tu end.
+        apply read_until_close_angle_spec in Eh; [|wfr].
+        destruct Eh as (Fr & L1 & L2 & D1 & D2 & D3 & _ & _). scbn.
+        assert (Wu : wf inp tu). { eapply (wf_fr inp _ tu); [|exact Fr|scbn; alia|alia]. wfr. }
+        destruct Fr as [Fr1 _ _ _ _ _]. scbn. mrun Eb. npost; auto with wfdb.
+  - wsplit; auto; alia.
+  - alia.
+Qed.
+
+(* ---- P12 ---- *)
+
+Definition data_ok (inp : list N) (s : st) : Prop := data_start s <= data_end s /\ data_end s <= length inp.
+
+Lemma raw_ok inp s : wf inp s -> raw inp s = (sub inp (raw_start s) (raw_end s), s).
+Proof. intros []. unfold raw. rewrite bind_get. apply slice_ok; assumption. Qed.
+Lemma buffered_ok inp s : wf inp s -> buffered inp s = (skipn (raw_end s) inp, s).
+Proof. intros []. unfold buffered. rewrite bind_get. apply slice_from_ok; assumption. Qed.
+
+(* what the accessors keep *)
+Definition acc_post (inp : list N) (s s' : st) : Prop :=
+  wf inp s' /\ raw_start s' = raw_start s /\ raw_end s' = raw_end s /\ data_ok inp s' /\ token s' = token s
+  /\ attribute s' = attribute s /\ number_attribute_returned s <= number_attribute_returned s'.
+
+Lemma wf_acc inp s ds de : wf inp s -> wf inp (set_data_end de (set_data_start ds s)).
+Proof. intros []. constructor; assumption. Qed.
+
+Lemma text_spec inp s a s' : wf inp s -> data_ok inp s -> text inp s = (a, s') -> acc_post inp s s'.
+Proof.
+  intros W (D1 & D2) EQ. pose proof (wf_end _ _ W). unfold text in EQ. mstep EQ.
+  destruct (token s) eqn:Tk; try solve [mstep EQ; unfold acc_post, data_ok; wsplit; auto];
+    (mstep EQ; mstep EQ; [mstep EQ; unfold acc_post, data_ok; wsplit; auto|];
+     mstep EQ; mstep EQ; mstep EQ; mstep EQ; unfold acc_post, data_ok; wsplit; scbn; auto; try alia; apply wf_acc; exact W).
+Qed.
+
+Lemma tag_name_spec lower inp s a s' : wf inp s -> data_ok inp s -> tag_name lower inp s = (a, s') -> acc_post inp s s'.
+Proof.
+  intros W (D1 & D2) EQ. pose proof (wf_end _ _ W). unfold tag_name in EQ. mstep EQ. mstep EQ.
+  2:{ mstep EQ. unfold acc_post, data_ok. wsplit; auto. }
+  destruct (token s) eqn:Tk; try solve [mstep EQ; unfold acc_post, data_ok; wsplit; auto];
+    (mstep EQ; mstep EQ; [mstep EQ; unfold acc_post, data_ok; wsplit; auto|];
+     mstep EQ; mstep EQ; mstep EQ; unfold acc_post, data_ok; wsplit; scbn; auto; try alia; apply wf_acc; exact W).
+Qed.
+
+Lemma wf_nar inp s k : wf inp s -> wf inp (set_number_attribute_returned k s).
+Proof. intros []. constructor; assumption. Qed.
+
+Lemma tag_attr_spec lower inp s a s' : wf inp s -> data_ok inp s -> tag_attr lower inp s = (a, s') ->
+  acc_post inp s s'
+  /\ (a = ROk (None, None, false) \/ number_attribute_returned s < number_attribute_returned s'
+                                     /\ number_attribute_returned s' <= length (attribute s)).
+Proof.
+  intros W (D1 & D2) EQ. pose proof (wf_end _ _ W). unfold tag_attr in EQ. mstep EQ. mstep EQ.
+  2:{ mstep EQ. unfold acc_post, data_ok. wsplit; auto. }
+  assert (Hattr : forall at_, nth_error (attribute s) (number_attribute_returned s) = Some at_ -> attr_ok (length inp) at_).
+  { intros at_ Hn. pose proof (wf_attrs _ _ W) as Fa. rewrite Forall_forall in Fa. apply Fa. eapply nth_error_In; eauto. }
+  destruct (token s) eqn:Tk; try solve [mstep EQ; unfold acc_post, data_ok; wsplit; auto].
+  all: mstep EQ;
+    destruct (index_attr_ok 54 (attribute s) (number_attribute_returned s) inp s C) as (at_ & Hat & Eat);
+    rewrite Eat in Eh; apply pair_equal_spec in Eh; destruct Eh as [<- <-];
+    destruct (Hattr _ Hat) as ((K1 & K2) & (V1 & V2));
+    mstep EQ; mstep EQ; mstep EQ;
+    [ mstep EQ; split; [unfold acc_post, data_ok; wsplit; scbn; auto; try alia; apply wf_nar; exact W | right; scbn; alia] | ];
+    mstep EQ; mstep EQ;
+    [ mstep EQ; split; [unfold acc_post, data_ok; wsplit; scbn; auto; try alia; apply wf_nar; exact W | right; scbn; alia] | ];
+    mstep EQ; mstep EQ; split; [unfold acc_post, data_ok; wsplit; scbn; auto; try alia; apply wf_nar; exact W | right; scbn; alia].
+Qed.
+
+Lemma observe_total lower ty inp s o s' : wf inp s -> data_ok inp s -> observe lower ty inp s = (o, s') ->
+  wf inp s' /\ raw_start s' = raw_start s /\ raw_end s' = raw_end s.
+Proof.
+  intros W D EQ. unfold observe in EQ. mstep EQ. mstep EQ. rewrite (raw_ok _ _ W) in Eh. apply pair_equal_spec in Eh. destruct Eh as [<- <-].
+  mstep EQ. lazymatch type of Eh with _ = (_, ?z) => rename z into t1 end.
+  apply text_spec in Eh; auto. destruct Eh as (W1 & R11 & R12 & D1 & _).
+  mstep EQ. lazymatch type of Eh with _ = (_, ?z) => rename z into t2 end.
+  apply tag_name_spec in Eh; auto. destruct Eh as (W2 & R21 & R22 & D2 & _).
+  mstep EQ. lazymatch type of Eh with _ = (_, ?z) => rename z into t3 end.
+  eapply (loop_in_rule inp _
+            (fun _ t => wf inp t /\ raw_start t = raw_start s /\ raw_end t = raw_end s /\ data_ok inp t
+                        /\ attribute t = attribute t2)
+            (fun _ t => length (attribute t2) - number_attribute_returned t)
+            (fun _ t => wf inp t /\ raw_start t = raw_start s /\ raw_end t = raw_end s)) in Eh.
+  - mstep EQ. exact Eh.
+  - clear Eh EQ. intros acc t r t' (Wt & Rt1 & Rt2 & Dt & At) Eb.
+    mstep Eb. lazymatch type of Eh with _ = (?y, ?z) => rename y into av; rename z into t4 end.
+    apply tag_attr_spec in Eh; auto. destruct Eh as ((W4 & R41 & R42 & D4 & _ & A4 & _) & Hprog).
+    mstep Eb.
+    + mstep Eb. wsplit; auto; congruence.
+    + mstep Eb. split; [wsplit; auto; congruence|].
+      destruct Hprog as [->|[Hp1 Hp2]]; [discriminate C|]. rewrite At in Hp2. alia.
+  - wsplit; auto; congruence.
+  - pose proof (wf_nattr _ _ W2). alia.
+Qed.
+
+Definition wf0_of inp s : wf inp s -> wf0 inp s.
+Proof. intros []. unfold wf0. auto 10. Qed.
+
+Lemma tok_loop_total lower inp : lower_ok lower -> forall fuel acc s r s',
+  wf0 inp s -> tok_loop lower fuel acc inp s = (r, s') ->
+  (length inp - raw_end s < fuel -> wf inp s' /\ (snd r = 0%N \/ snd r = 1%N))
+  /\ length (fst r) + raw_end s <= length acc + length inp.
+Proof.
+  intros LO. induction fuel as [|f IH]; intros acc s r s' W0 EQ; cbn [tok_loop] in EQ.
+  - mstep EQ. mstep EQ. scbn. split; [intros; alia|]. rewrite rev_length. destruct W0. alia.
+  - mstep EQ. lazymatch type of Eh with _ = (?y, ?z) => rename y into r1; rename z into t1 end.
+    apply (next_spec lower inp s r1 t1 LO W0) in Eh. destruct Eh as (W1 & R1 & D11 & D12 & Tk & Pg).
+    pose proof (wf_end _ _ W1) as E1. pose proof (wf_start _ _ W1) as S1.
+    mstep EQ. rewrite (wf_panic _ _ W1), (wf_oof _ _ W1) in EQ. cbn [is_some orb] in EQ.
+    destruct r1 as [ty|].
+    2:{ mstep EQ. scbn. split; [intros; auto|]. rewrite rev_length. alia. }
+    destruct (token_eqb ty ErrorToken) eqn:Ety.
+    { mstep EQ. scbn. split; [intros; auto|]. rewrite rev_length. alia. }
+    assert (Hne : ty <> ErrorToken) by (intros ->; discriminate Ety).
+    specialize (Pg ty eq_refl Hne).
+    mstep EQ. lazymatch type of Eh with _ = (?y, ?z) => rename y into o; rename z into t2 end.
+    apply observe_total in Eh; [|exact W1|split; assumption]. destruct Eh as (W2 & R21 & R22).
+    apply IH in EQ; [|apply wf0_of; exact W2]. destruct EQ as (Ha & Hb). cbn [length] in Hb.
+    split; [intros Hf; apply Ha; alia|alia].
+Qed.
+
+Lemma new_fragment_wf0 lower ctx inp : wf0 inp (new_fragment lower ctx).
+Proof.
+  unfold new_fragment, wf0. destruct (negb (is_nil ctx)).
+  - destruct (mem_str (lower ctx) raw_text_elements) eqn:M; scbn; cbn; wsplit; auto; try alia; try (left; reflexivity).
+    right. apply mem_str_In. exact M.
+  - cbn. wsplit; auto; try alia. left; reflexivity.
+Qed.
+
+(* T2: with fuel length b + 1 the driver never panics and never runs out of fuel, for every input, context tag and
+   lowercase oracle that is ASCII lowercasing on the ten raw-text element names *)
+Lemma total : forall (lower : str -> str) (ctx : str) (fuel : nat) (b : str),
+  lower_ok lower -> length b + 1 <= fuel -> exists r, tokenize_all lower ctx fuel b = Ok r.
+Proof.
+  intros lower ctx fuel b LO Hf. unfold tokenize_all, run_outcome.
+  match goal with |- context [?m b (new_fragment lower ctx)] => destruct (m b (new_fragment lower ctx)) as [res sf] eqn:EQ end.
+  mstep EQ. lazymatch type of Eh with _ = (?y, ?z) => rename y into r1; rename z into t1 end.
+  pose proof (new_fragment_wf0 lower ctx b) as W0.
+  destruct (tok_loop_total lower b LO fuel [] _ r1 t1 W0 Eh) as (Ha & _).
+  rewrite new_fragment_raw_end in Ha. destruct Ha as (W1 & _); [alia|].
+  mstep EQ. mstep EQ. rewrite (raw_ok _ _ W1) in Eh0. apply pair_equal_spec in Eh0. destruct Eh0 as [<- <-].
+  mstep EQ. rewrite (buffered_ok _ _ W1) in Eh0. apply pair_equal_spec in Eh0. destruct Eh0 as [<- <-].
+  mstep EQ. rewrite (wf_panic _ _ W1), (wf_oof _ _ W1). eexists. reflexivity.
+Qed.
+
+(* T3: at most one token per input byte (the ErrorToken is not in the list) *)
+Lemma count : forall (lower : str -> str) (ctx : str) (fuel : nat) (b : str) toks fin,
+  lower_ok lower -> tokenize_all lower ctx fuel b = Ok (toks, fin) -> length toks <= length b.
+Proof.
+  intros lower ctx fuel b toks fin LO H. unfold tokenize_all, run_outcome in H.
+  match type of H with context [?m b (new_fragment lower ctx)] => destruct (m b (new_fragment lower ctx)) as [res sf] eqn:EQ end.
+  mstep EQ. lazymatch type of Eh with _ = (?y, ?z) => rename y into r1; rename z into t1 end.
+  pose proof (new_fragment_wf0 lower ctx b) as W0.
+  destruct (tok_loop_total lower b LO fuel [] _ r1 t1 W0 Eh) as (_ & Hb).
+  rewrite new_fragment_raw_end in Hb. cbn [length] in Hb.
+  mstep EQ. mstep EQ. mstep EQ. mstep EQ.
+  repeat match type of H with context [match ?c with _ => _ end] => destruct c end; try discriminate.
+  injection H as <- _. alia.
+Qed.
+
